@@ -1,1442 +1,2 @@
--- GENERATED by /verif/gen/s4gen.py (gen_time.py) from src/data/datetime.rs — do not edit
-namespace S4V.Gen.TimeTables
-
-/-- `DTFS_Year` -/
-inductive DTFS_Year where
-  | Y
-  | y
-  | fill
-  | none_
-deriving DecidableEq, Repr, Inhabited
-
-/-- `DTFS_Month` -/
-inductive DTFS_Month where
-  | m
-  | ms
-  | b
-  | B
-  | none_
-deriving DecidableEq, Repr, Inhabited
-
-/-- `DTFS_Day` -/
-inductive DTFS_Day where
-  | e_or_d
-  | none_
-deriving DecidableEq, Repr, Inhabited
-
-/-- `DTFS_Hour` -/
-inductive DTFS_Hour where
-  | H
-  | k
-  | I
-  | l
-  | none_
-deriving DecidableEq, Repr, Inhabited
-
-/-- `DTFS_Minute` -/
-inductive DTFS_Minute where
-  | M
-  | none_
-deriving DecidableEq, Repr, Inhabited
-
-/-- `DTFS_Second` -/
-inductive DTFS_Second where
-  | S
-  | fill
-  | none_
-deriving DecidableEq, Repr, Inhabited
-
-/-- `DTFS_Fractional` -/
-inductive DTFS_Fractional where
-  | f
-  | none_
-deriving DecidableEq, Repr, Inhabited
-
-/-- `DTFS_Tz` -/
-inductive DTFS_Tz where
-  | z
-  | zc
-  | zp
-  | Z
-  | fill
-  | none_
-deriving DecidableEq, Repr, Inhabited
-
-/-- `DTFS_Epoch` -/
-inductive DTFS_Epoch where
-  | s
-  | none_
-deriving DecidableEq, Repr, Inhabited
-
-/-- `DTFSSet`; `pattern` = the bytes of the `DTP_*` strftime string -/
-structure DTFSSet where
-  year : DTFS_Year
-  month : DTFS_Month
-  day : DTFS_Day
-  hour : DTFS_Hour
-  minute : DTFS_Minute
-  second : DTFS_Second
-  fractional : DTFS_Fractional
-  tz : DTFS_Tz
-  epoch : DTFS_Epoch
-  pattern : List UInt8
-deriving DecidableEq, Repr, Inhabited
-
-/-- `DTP_YmdHMSzc` = "%Y%m%dT%H%M%S%:z" -/
-def DTP_YmdHMSzc : List UInt8 := [37, 89, 37, 109, 37, 100, 84, 37, 72, 37, 77, 37, 83, 37, 58, 122]
-def DTP_YmdHMSzc_str : String := "%Y%m%dT%H%M%S%:z"
-/-- `DTP_YmdHMSz` = "%Y%m%dT%H%M%S%z" -/
-def DTP_YmdHMSz : List UInt8 := [37, 89, 37, 109, 37, 100, 84, 37, 72, 37, 77, 37, 83, 37, 122]
-def DTP_YmdHMSz_str : String := "%Y%m%dT%H%M%S%z"
-/-- `DTP_YmdHMSzp` = "%Y%m%dT%H%M%S%#z" -/
-def DTP_YmdHMSzp : List UInt8 := [37, 89, 37, 109, 37, 100, 84, 37, 72, 37, 77, 37, 83, 37, 35, 122]
-def DTP_YmdHMSzp_str : String := "%Y%m%dT%H%M%S%#z"
-/-- `DTP_YmdHMSfzc` = "%Y%m%dT%H%M%S.%f%:z" -/
-def DTP_YmdHMSfzc : List UInt8 := [37, 89, 37, 109, 37, 100, 84, 37, 72, 37, 77, 37, 83, 46, 37, 102, 37, 58, 122]
-def DTP_YmdHMSfzc_str : String := "%Y%m%dT%H%M%S.%f%:z"
-/-- `DTP_YmdHMSfz` = "%Y%m%dT%H%M%S.%f%z" -/
-def DTP_YmdHMSfz : List UInt8 := [37, 89, 37, 109, 37, 100, 84, 37, 72, 37, 77, 37, 83, 46, 37, 102, 37, 122]
-def DTP_YmdHMSfz_str : String := "%Y%m%dT%H%M%S.%f%z"
-/-- `DTP_YmdHMSfzp` = "%Y%m%dT%H%M%S.%f%#z" -/
-def DTP_YmdHMSfzp : List UInt8 := [37, 89, 37, 109, 37, 100, 84, 37, 72, 37, 77, 37, 83, 46, 37, 102, 37, 35, 122]
-def DTP_YmdHMSfzp_str : String := "%Y%m%dT%H%M%S.%f%#z"
-/-- `DTP_mdHMS` = "%Y%m%dT%H%M%S%:z" -/
-def DTP_mdHMS : List UInt8 := [37, 89, 37, 109, 37, 100, 84, 37, 72, 37, 77, 37, 83, 37, 58, 122]
-def DTP_mdHMS_str : String := "%Y%m%dT%H%M%S%:z"
-/-- `DTP_BdHMS` = "%Y%m%dT%H%M%S%:z" -/
-def DTP_BdHMS : List UInt8 := [37, 89, 37, 109, 37, 100, 84, 37, 72, 37, 77, 37, 83, 37, 58, 122]
-def DTP_BdHMS_str : String := "%Y%m%dT%H%M%S%:z"
-/-- `DTP_BdHMSZ` = "%Y%m%dT%H%M%S%:z" -/
-def DTP_BdHMSZ : List UInt8 := [37, 89, 37, 109, 37, 100, 84, 37, 72, 37, 77, 37, 83, 37, 58, 122]
-def DTP_BdHMSZ_str : String := "%Y%m%dT%H%M%S%:z"
-/-- `DTP_BdHMSY` = "%Y%m%dT%H%M%S%:z" -/
-def DTP_BdHMSY : List UInt8 := [37, 89, 37, 109, 37, 100, 84, 37, 72, 37, 77, 37, 83, 37, 58, 122]
-def DTP_BdHMSY_str : String := "%Y%m%dT%H%M%S%:z"
-/-- `DTP_BdHMSYZ` = "%Y%m%dT%H%M%S%:z" -/
-def DTP_BdHMSYZ : List UInt8 := [37, 89, 37, 109, 37, 100, 84, 37, 72, 37, 77, 37, 83, 37, 58, 122]
-def DTP_BdHMSYZ_str : String := "%Y%m%dT%H%M%S%:z"
-/-- `DTP_BdHMSYzp` = "%Y%m%dT%H%M%S%#z" -/
-def DTP_BdHMSYzp : List UInt8 := [37, 89, 37, 109, 37, 100, 84, 37, 72, 37, 77, 37, 83, 37, 35, 122]
-def DTP_BdHMSYzp_str : String := "%Y%m%dT%H%M%S%#z"
-/-- `DTP_bdHMSY` = "%Y%m%dT%H%M%S%:z" -/
-def DTP_bdHMSY : List UInt8 := [37, 89, 37, 109, 37, 100, 84, 37, 72, 37, 77, 37, 83, 37, 58, 122]
-def DTP_bdHMSY_str : String := "%Y%m%dT%H%M%S%:z"
-/-- `DTP_bdHMSYf` = "%Y%m%dT%H%M%S.%f%:z" -/
-def DTP_bdHMSYf : List UInt8 := [37, 89, 37, 109, 37, 100, 84, 37, 72, 37, 77, 37, 83, 46, 37, 102, 37, 58, 122]
-def DTP_bdHMSYf_str : String := "%Y%m%dT%H%M%S.%f%:z"
-/-- `DTP_bdHMSYZ` = "%Y%m%dT%H%M%S%:z" -/
-def DTP_bdHMSYZ : List UInt8 := [37, 89, 37, 109, 37, 100, 84, 37, 72, 37, 77, 37, 83, 37, 58, 122]
-def DTP_bdHMSYZ_str : String := "%Y%m%dT%H%M%S%:z"
-/-- `DTP_bdHMSYZz` = "%Y%m%dT%H%M%S%z" -/
-def DTP_bdHMSYZz : List UInt8 := [37, 89, 37, 109, 37, 100, 84, 37, 72, 37, 77, 37, 83, 37, 122]
-def DTP_bdHMSYZz_str : String := "%Y%m%dT%H%M%S%z"
-/-- `DTP_bdHMSYZc` = "%Y%m%dT%H%M%S%:z" -/
-def DTP_bdHMSYZc : List UInt8 := [37, 89, 37, 109, 37, 100, 84, 37, 72, 37, 77, 37, 83, 37, 58, 122]
-def DTP_bdHMSYZc_str : String := "%Y%m%dT%H%M%S%:z"
-/-- `DTP_bdHMSYZp` = "%Y%m%dT%H%M%S%#z" -/
-def DTP_bdHMSYZp : List UInt8 := [37, 89, 37, 109, 37, 100, 84, 37, 72, 37, 77, 37, 83, 37, 35, 122]
-def DTP_bdHMSYZp_str : String := "%Y%m%dT%H%M%S%#z"
-/-- `DTP_bdHMSYfZz` = "%Y%m%dT%H%M%S.%f%z" -/
-def DTP_bdHMSYfZz : List UInt8 := [37, 89, 37, 109, 37, 100, 84, 37, 72, 37, 77, 37, 83, 46, 37, 102, 37, 122]
-def DTP_bdHMSYfZz_str : String := "%Y%m%dT%H%M%S.%f%z"
-/-- `DTP_bdHMSYfZc` = "%Y%m%dT%H%M%S.%f%:z" -/
-def DTP_bdHMSYfZc : List UInt8 := [37, 89, 37, 109, 37, 100, 84, 37, 72, 37, 77, 37, 83, 46, 37, 102, 37, 58, 122]
-def DTP_bdHMSYfZc_str : String := "%Y%m%dT%H%M%S.%f%:z"
-/-- `DTP_bdHMSYfZp` = "%Y%m%dT%H%M%S.%f%#z" -/
-def DTP_bdHMSYfZp : List UInt8 := [37, 89, 37, 109, 37, 100, 84, 37, 72, 37, 77, 37, 83, 46, 37, 102, 37, 35, 122]
-def DTP_bdHMSYfZp_str : String := "%Y%m%dT%H%M%S.%f%#z"
-/-- `DTP_bdHMSyZc` = "%y%m%dT%H%M%S%:z" -/
-def DTP_bdHMSyZc : List UInt8 := [37, 121, 37, 109, 37, 100, 84, 37, 72, 37, 77, 37, 83, 37, 58, 122]
-def DTP_bdHMSyZc_str : String := "%y%m%dT%H%M%S%:z"
-/-- `DTP_mdHMYZc` = "%Y%m%dT%H%M%:z" -/
-def DTP_mdHMYZc : List UInt8 := [37, 89, 37, 109, 37, 100, 84, 37, 72, 37, 77, 37, 58, 122]
-def DTP_mdHMYZc_str : String := "%Y%m%dT%H%M%:z"
-/-- `DTP_s` = "%sT" -/
-def DTP_s : List UInt8 := [37, 115, 84]
-def DTP_s_str : String := "%sT"
-/-- `DTP_sf` = "%sT.%f" -/
-def DTP_sf : List UInt8 := [37, 115, 84, 46, 37, 102]
-def DTP_sf_str : String := "%sT.%f"
-
-def DTFSS_YmdHMS : DTFSSet := { year := .Y, month := .m, day := .e_or_d, hour := .H, minute := .M, second := .S, fractional := .none_, tz := .fill, epoch := .none_, pattern := DTP_YmdHMSzc }
-def DTFSS_YmsdkMS : DTFSSet := { year := .Y, month := .ms, day := .e_or_d, hour := .k, minute := .M, second := .S, fractional := .none_, tz := .fill, epoch := .none_, pattern := DTP_YmdHMSzc }
-def DTFSS_YmdHMSz : DTFSSet := { year := .Y, month := .m, day := .e_or_d, hour := .H, minute := .M, second := .S, fractional := .none_, tz := .z, epoch := .none_, pattern := DTP_YmdHMSz }
-def DTFSS_YmdHMSzc : DTFSSet := { year := .Y, month := .m, day := .e_or_d, hour := .H, minute := .M, second := .S, fractional := .none_, tz := .zc, epoch := .none_, pattern := DTP_YmdHMSzc }
-def DTFSS_YmdHMSzp : DTFSSet := { year := .Y, month := .m, day := .e_or_d, hour := .H, minute := .M, second := .S, fractional := .none_, tz := .zp, epoch := .none_, pattern := DTP_YmdHMSzp }
-def DTFSS_YmdHMSZ : DTFSSet := { year := .Y, month := .m, day := .e_or_d, hour := .H, minute := .M, second := .S, fractional := .none_, tz := .Z, epoch := .none_, pattern := DTP_YmdHMSz }
-def DTFSS_YmdHMSf : DTFSSet := { year := .Y, month := .m, day := .e_or_d, hour := .H, minute := .M, second := .S, fractional := .f, tz := .fill, epoch := .none_, pattern := DTP_YmdHMSfzc }
-def DTFSS_YmdHMSfz : DTFSSet := { year := .Y, month := .m, day := .e_or_d, hour := .H, minute := .M, second := .S, fractional := .f, tz := .z, epoch := .none_, pattern := DTP_YmdHMSfz }
-def DTFSS_YmdHMSfzc : DTFSSet := { year := .Y, month := .m, day := .e_or_d, hour := .H, minute := .M, second := .S, fractional := .f, tz := .zc, epoch := .none_, pattern := DTP_YmdHMSfzc }
-def DTFSS_YmdHMSfzp : DTFSSet := { year := .Y, month := .m, day := .e_or_d, hour := .H, minute := .M, second := .S, fractional := .f, tz := .zp, epoch := .none_, pattern := DTP_YmdHMSfzp }
-def DTFSS_YmdHMSfZ : DTFSSet := { year := .Y, month := .m, day := .e_or_d, hour := .H, minute := .M, second := .S, fractional := .f, tz := .Z, epoch := .none_, pattern := DTP_YmdHMSfzc }
-def DTFSS_mdHMS : DTFSSet := { year := .fill, month := .m, day := .e_or_d, hour := .H, minute := .M, second := .S, fractional := .none_, tz := .fill, epoch := .none_, pattern := DTP_mdHMS }
-def DTFSS_BdHMS : DTFSSet := { year := .fill, month := .B, day := .e_or_d, hour := .H, minute := .M, second := .S, fractional := .none_, tz := .fill, epoch := .none_, pattern := DTP_BdHMS }
-def DTFSS_BdHMSZ : DTFSSet := { year := .fill, month := .B, day := .e_or_d, hour := .H, minute := .M, second := .S, fractional := .none_, tz := .Z, epoch := .none_, pattern := DTP_BdHMSZ }
-def DTFSS_BdHMSY : DTFSSet := { year := .Y, month := .B, day := .e_or_d, hour := .H, minute := .M, second := .S, fractional := .none_, tz := .fill, epoch := .none_, pattern := DTP_BdHMSY }
-def DTFSS_BdHMSYZ : DTFSSet := { year := .Y, month := .B, day := .e_or_d, hour := .H, minute := .M, second := .S, fractional := .none_, tz := .Z, epoch := .none_, pattern := DTP_BdHMSYZ }
-def DTFSS_BdHMSYz : DTFSSet := { year := .Y, month := .B, day := .e_or_d, hour := .H, minute := .M, second := .S, fractional := .none_, tz := .z, epoch := .none_, pattern := DTP_BdHMSYZ }
-def DTFSS_BdHMSYzc : DTFSSet := { year := .Y, month := .B, day := .e_or_d, hour := .H, minute := .M, second := .S, fractional := .none_, tz := .zc, epoch := .none_, pattern := DTP_BdHMSYZ }
-def DTFSS_BdHMSYzp : DTFSSet := { year := .Y, month := .B, day := .e_or_d, hour := .H, minute := .M, second := .S, fractional := .none_, tz := .zp, epoch := .none_, pattern := DTP_BdHMSYzp }
-def DTFSS_bdHMSY : DTFSSet := { year := .Y, month := .b, day := .e_or_d, hour := .H, minute := .M, second := .S, fractional := .none_, tz := .fill, epoch := .none_, pattern := DTP_bdHMSY }
-def DTFSS_bdHMSYf : DTFSSet := { year := .Y, month := .b, day := .e_or_d, hour := .H, minute := .M, second := .S, fractional := .f, tz := .fill, epoch := .none_, pattern := DTP_bdHMSYf }
-def DTFSS_bdHMSYZ : DTFSSet := { year := .Y, month := .b, day := .e_or_d, hour := .H, minute := .M, second := .S, fractional := .none_, tz := .Z, epoch := .none_, pattern := DTP_bdHMSYZ }
-def DTFSS_bdHMSYz : DTFSSet := { year := .Y, month := .b, day := .e_or_d, hour := .H, minute := .M, second := .S, fractional := .none_, tz := .z, epoch := .none_, pattern := DTP_bdHMSYZz }
-def DTFSS_bdHMSYzc : DTFSSet := { year := .Y, month := .b, day := .e_or_d, hour := .H, minute := .M, second := .S, fractional := .none_, tz := .zc, epoch := .none_, pattern := DTP_bdHMSYZc }
-def DTFSS_bdHMSYzp : DTFSSet := { year := .Y, month := .b, day := .e_or_d, hour := .H, minute := .M, second := .S, fractional := .none_, tz := .zp, epoch := .none_, pattern := DTP_bdHMSYZp }
-def DTFSS_bdHMSYfz : DTFSSet := { year := .Y, month := .b, day := .e_or_d, hour := .H, minute := .M, second := .S, fractional := .f, tz := .z, epoch := .none_, pattern := DTP_bdHMSYfZz }
-def DTFSS_bdHMSYfzc : DTFSSet := { year := .Y, month := .b, day := .e_or_d, hour := .H, minute := .M, second := .S, fractional := .f, tz := .zc, epoch := .none_, pattern := DTP_bdHMSYfZc }
-def DTFSS_bdHMSYfzp : DTFSSet := { year := .Y, month := .b, day := .e_or_d, hour := .H, minute := .M, second := .S, fractional := .f, tz := .zp, epoch := .none_, pattern := DTP_bdHMSYfZp }
-def DTFSS_YbdHMSzc : DTFSSet := { year := .Y, month := .b, day := .e_or_d, hour := .H, minute := .M, second := .S, fractional := .none_, tz := .zc, epoch := .none_, pattern := DTP_bdHMSYZc }
-def DTFSS_YbdHMSzp : DTFSSet := { year := .Y, month := .b, day := .e_or_d, hour := .H, minute := .M, second := .S, fractional := .none_, tz := .zp, epoch := .none_, pattern := DTP_bdHMSYZp }
-def DTFSS_YbdHMSz : DTFSSet := { year := .Y, month := .b, day := .e_or_d, hour := .H, minute := .M, second := .S, fractional := .none_, tz := .z, epoch := .none_, pattern := DTP_bdHMSYZz }
-def DTFSS_YbdHMSZ : DTFSSet := { year := .Y, month := .b, day := .e_or_d, hour := .H, minute := .M, second := .S, fractional := .none_, tz := .Z, epoch := .none_, pattern := DTP_bdHMSYZ }
-def DTFSS_YbdHMS : DTFSSet := { year := .Y, month := .b, day := .e_or_d, hour := .H, minute := .M, second := .S, fractional := .none_, tz := .fill, epoch := .none_, pattern := DTP_bdHMSYZc }
-def DTFSS_ybdHMS : DTFSSet := { year := .y, month := .b, day := .e_or_d, hour := .H, minute := .M, second := .S, fractional := .none_, tz := .fill, epoch := .none_, pattern := DTP_bdHMSyZc }
-def DTFSS_YmdHM : DTFSSet := { year := .Y, month := .m, day := .e_or_d, hour := .H, minute := .M, second := .none_, fractional := .none_, tz := .fill, epoch := .none_, pattern := DTP_mdHMYZc }
-def DTFSS_s : DTFSSet := { year := .none_, month := .none_, day := .none_, hour := .none_, minute := .none_, second := .none_, fractional := .none_, tz := .none_, epoch := .s, pattern := DTP_s }
-def DTFSS_sf : DTFSSet := { year := .none_, month := .none_, day := .none_, hour := .none_, minute := .none_, second := .none_, fractional := .f, tz := .none_, epoch := .s, pattern := DTP_sf }
-
-/-- every `DTFSS_*` constant, in source order -/
-def allDTFSS : List (String × DTFSSet) := [
-  ("DTFSS_YmdHMS", DTFSS_YmdHMS),
-  ("DTFSS_YmsdkMS", DTFSS_YmsdkMS),
-  ("DTFSS_YmdHMSz", DTFSS_YmdHMSz),
-  ("DTFSS_YmdHMSzc", DTFSS_YmdHMSzc),
-  ("DTFSS_YmdHMSzp", DTFSS_YmdHMSzp),
-  ("DTFSS_YmdHMSZ", DTFSS_YmdHMSZ),
-  ("DTFSS_YmdHMSf", DTFSS_YmdHMSf),
-  ("DTFSS_YmdHMSfz", DTFSS_YmdHMSfz),
-  ("DTFSS_YmdHMSfzc", DTFSS_YmdHMSfzc),
-  ("DTFSS_YmdHMSfzp", DTFSS_YmdHMSfzp),
-  ("DTFSS_YmdHMSfZ", DTFSS_YmdHMSfZ),
-  ("DTFSS_mdHMS", DTFSS_mdHMS),
-  ("DTFSS_BdHMS", DTFSS_BdHMS),
-  ("DTFSS_BdHMSZ", DTFSS_BdHMSZ),
-  ("DTFSS_BdHMSY", DTFSS_BdHMSY),
-  ("DTFSS_BdHMSYZ", DTFSS_BdHMSYZ),
-  ("DTFSS_BdHMSYz", DTFSS_BdHMSYz),
-  ("DTFSS_BdHMSYzc", DTFSS_BdHMSYzc),
-  ("DTFSS_BdHMSYzp", DTFSS_BdHMSYzp),
-  ("DTFSS_bdHMSY", DTFSS_bdHMSY),
-  ("DTFSS_bdHMSYf", DTFSS_bdHMSYf),
-  ("DTFSS_bdHMSYZ", DTFSS_bdHMSYZ),
-  ("DTFSS_bdHMSYz", DTFSS_bdHMSYz),
-  ("DTFSS_bdHMSYzc", DTFSS_bdHMSYzc),
-  ("DTFSS_bdHMSYzp", DTFSS_bdHMSYzp),
-  ("DTFSS_bdHMSYfz", DTFSS_bdHMSYfz),
-  ("DTFSS_bdHMSYfzc", DTFSS_bdHMSYfzc),
-  ("DTFSS_bdHMSYfzp", DTFSS_bdHMSYfzp),
-  ("DTFSS_YbdHMSzc", DTFSS_YbdHMSzc),
-  ("DTFSS_YbdHMSzp", DTFSS_YbdHMSzp),
-  ("DTFSS_YbdHMSz", DTFSS_YbdHMSz),
-  ("DTFSS_YbdHMSZ", DTFSS_YbdHMSZ),
-  ("DTFSS_YbdHMS", DTFSS_YbdHMS),
-  ("DTFSS_ybdHMS", DTFSS_ybdHMS),
-  ("DTFSS_YmdHM", DTFSS_YmdHM),
-  ("DTFSS_s", DTFSS_s),
-  ("DTFSS_sf", DTFSS_sf)
-]
-
-/-- the distinct strftime patterns in use -/
-def allPatterns : List (List UInt8) := [DTP_YmdHMSzc, DTP_YmdHMSz, DTP_YmdHMSzp, DTP_YmdHMSfzc, DTP_YmdHMSfz, DTP_YmdHMSfzp, DTP_mdHMS, DTP_BdHMS, DTP_BdHMSZ, DTP_BdHMSY, DTP_BdHMSYZ, DTP_BdHMSYzp, DTP_bdHMSY, DTP_bdHMSYf, DTP_bdHMSYZ, DTP_bdHMSYZz, DTP_bdHMSYZc, DTP_bdHMSYZp, DTP_bdHMSYfZz, DTP_bdHMSYfZc, DTP_bdHMSYfZp, DTP_bdHMSyZc, DTP_mdHMYZc, DTP_s, DTP_sf]
-
-/-- `MAP_TZZ_TO_TZz`, all entries in source order -/
-def tzTable : List (String × String) := [
-  ("ACDT", "+10:30"),
-  ("ACST", "+09:30"),
-  ("ACT", ""),
-  ("ACWST", "+08:45"),
-  ("ADT", "-03:00"),
-  ("AEDT", "+11:00"),
-  ("AEST", "+10:00"),
-  ("AET", "+11:00"),
-  ("AFT", "+04:30"),
-  ("AKDT", "-08:00"),
-  ("AKST", "-09:00"),
-  ("ALMT", "+06:00"),
-  ("AMST", "-03:00"),
-  ("AMT", ""),
-  ("ANAT", "+12:00"),
-  ("AQTT", "+05:00"),
-  ("ART", "-03:00"),
-  ("AST", ""),
-  ("AWST", "+08:00"),
-  ("AZOST", "+00:00"),
-  ("AZOT", "-01:00"),
-  ("AZT", "+04:00"),
-  ("BNT", "+08:00"),
-  ("BIOT", "+06:00"),
-  ("BIT", "-12:00"),
-  ("BOT", "-04:00"),
-  ("BRST", "-02:00"),
-  ("BRT", "-03:00"),
-  ("BST", ""),
-  ("BTT", "+06:00"),
-  ("CAT", "+02:00"),
-  ("CCT", "+06:30"),
-  ("CDT", ""),
-  ("CEST", "+02:00"),
-  ("CET", "+01:00"),
-  ("CHADT", "+13:45"),
-  ("CHAST", "+12:45"),
-  ("CHOT", "+08:00"),
-  ("CHOST", "+09:00"),
-  ("CHST", "+10:00"),
-  ("CHUT", "+10:00"),
-  ("CIST", "-08:00"),
-  ("CKT", "-10:00"),
-  ("CLST", "-03:00"),
-  ("CLT", "-04:00"),
-  ("COST", "-04:00"),
-  ("COT", "-05:00"),
-  ("CST", ""),
-  ("CT", "-05:00"),
-  ("CVT", "-01:00"),
-  ("CWST", "+08:45"),
-  ("CXT", "+07:00"),
-  ("DAVT", "+07:00"),
-  ("DDUT", "+10:00"),
-  ("DFT", "+01:00"),
-  ("EASST", "-05:00"),
-  ("EAST", "-06:00"),
-  ("EAT", "+03:00"),
-  ("ECT", ""),
-  ("EDT", "-04:00"),
-  ("EEST", "+03:00"),
-  ("EET", "+02:00"),
-  ("EGST", "-00:00"),
-  ("EGT", "-01:00"),
-  ("EST", "-05:00"),
-  ("ET", "-04:00"),
-  ("FET", "+03:00"),
-  ("FJT", "+12:00"),
-  ("FKST", "-03:00"),
-  ("FKT", "-04:00"),
-  ("FNT", "-02:00"),
-  ("GALT", "-06:00"),
-  ("GAMT", "-09:00"),
-  ("GET", "+04:00"),
-  ("GFT", "-03:00"),
-  ("GILT", "+12:00"),
-  ("GIT", "-09:00"),
-  ("GMT", "-00:00"),
-  ("GST", ""),
-  ("GYT", "-04:00"),
-  ("HDT", "-09:00"),
-  ("HAEC", "+02:00"),
-  ("HST", "-10:00"),
-  ("HKT", "+08:00"),
-  ("HMT", "+05:00"),
-  ("HOVST", "+08:00"),
-  ("HOVT", "+07:00"),
-  ("ICT", "+07:00"),
-  ("IDLW", "-12:00"),
-  ("IDT", "+03:00"),
-  ("IOT", "+03:00"),
-  ("IRDT", "+04:30"),
-  ("IRKT", "+08:00"),
-  ("IRST", "+03:30"),
-  ("IST", ""),
-  ("JST", "+09:00"),
-  ("KALT", "+02:00"),
-  ("KGT", "+06:00"),
-  ("KOST", "+11:00"),
-  ("KRAT", "+07:00"),
-  ("KST", "+09:00"),
-  ("LHST", ""),
-  ("LINT", "+14:00"),
-  ("MAGT", "+12:00"),
-  ("MART", "-09:30"),
-  ("MAWT", "+05:00"),
-  ("MDT", "-06:00"),
-  ("MET", "+01:00"),
-  ("MEST", "+02:00"),
-  ("MHT", "+12:00"),
-  ("MIST", "+11:00"),
-  ("MIT", "-09:30"),
-  ("MMT", "+06:30"),
-  ("MSK", "+03:00"),
-  ("MST", ""),
-  ("MUT", "+04:00"),
-  ("MVT", "+05:00"),
-  ("MYT", "+08:00"),
-  ("NCT", "+11:00"),
-  ("NDT", "-02:30"),
-  ("NFT", "+11:00"),
-  ("NOVT", "+07:00"),
-  ("NPT", "+05:45"),
-  ("NST", "-03:30"),
-  ("NT", "-03:30"),
-  ("NUT", "-11:00"),
-  ("NZDT", "+13:00"),
-  ("NZST", "+12:00"),
-  ("OMST", "+06:00"),
-  ("ORAT", "+05:00"),
-  ("PDT", "-07:00"),
-  ("PET", "-05:00"),
-  ("PETT", "+12:00"),
-  ("PGT", "+10:00"),
-  ("PHOT", "+13:00"),
-  ("PHT", "+08:00"),
-  ("PHST", "+08:00"),
-  ("PKT", "+05:00"),
-  ("PMDT", "-02:00"),
-  ("PMST", "-03:00"),
-  ("PONT", "+11:00"),
-  ("PST", "-08:00"),
-  ("PWT", "+09:00"),
-  ("PYST", "-03:00"),
-  ("PYT", "-04:00"),
-  ("RET", "+04:00"),
-  ("ROTT", "-03:00"),
-  ("SAKT", "+11:00"),
-  ("SAMT", "+04:00"),
-  ("SAST", "+02:00"),
-  ("SBT", "+11:00"),
-  ("SCT", "+04:00"),
-  ("SDT", "-10:00"),
-  ("SGT", "+08:00"),
-  ("SLST", "+05:30"),
-  ("SRET", "+11:00"),
-  ("SRT", "-03:00"),
-  ("SST", ""),
-  ("SYOT", "+03:00"),
-  ("TAHT", "-10:00"),
-  ("THA", "+07:00"),
-  ("TFT", "+05:00"),
-  ("TJT", "+05:00"),
-  ("TKT", "+13:00"),
-  ("TLT", "+09:00"),
-  ("TMT", "+05:00"),
-  ("TRT", "+03:00"),
-  ("TOT", "+13:00"),
-  ("TVT", "+12:00"),
-  ("ULAST", "+09:00"),
-  ("ULAT", "+08:00"),
-  ("UT", "-00:00"),
-  ("UTC", "-00:00"),
-  ("UYST", "-02:00"),
-  ("UYT", "-03:00"),
-  ("UZT", "+05:00"),
-  ("VET", "-04:00"),
-  ("VLAT", "+10:00"),
-  ("VOLT", "+03:00"),
-  ("VOST", "+06:00"),
-  ("VUT", "+11:00"),
-  ("WAKT", "+12:00"),
-  ("WAST", "+02:00"),
-  ("WAT", "+01:00"),
-  ("WEST", "+01:00"),
-  ("WET", "-00:00"),
-  ("WIB", "+07:00"),
-  ("WIT", "+09:00"),
-  ("WITA", "+08:00"),
-  ("WGST", "-02:00"),
-  ("WGT", "-03:00"),
-  ("WST", "+08:00"),
-  ("YAKT", "+09:00"),
-  ("YEKT", "+05:00"),
-  ("ZULU", "+00:00"),
-  ("Z", "+00:00"),
-  ("acdt", "+10:30"),
-  ("acst", "+09:30"),
-  ("act", ""),
-  ("acwst", "+08:45"),
-  ("adt", "-03:00"),
-  ("aedt", "+11:00"),
-  ("aest", "+10:00"),
-  ("aet", "+11:00"),
-  ("aft", "+04:30"),
-  ("akdt", "-08:00"),
-  ("akst", "-09:00"),
-  ("almt", "+06:00"),
-  ("amst", "-03:00"),
-  ("amt", ""),
-  ("anat", "+12:00"),
-  ("aqtt", "+05:00"),
-  ("art", "-03:00"),
-  ("ast", ""),
-  ("awst", "+08:00"),
-  ("azost", "-00:00"),
-  ("azot", "-01:00"),
-  ("azt", "+04:00"),
-  ("bnt", "+08:00"),
-  ("biot", "+06:00"),
-  ("bit", "-12:00"),
-  ("bot", "-04:00"),
-  ("brst", "-02:00"),
-  ("brt", "-03:00"),
-  ("bst", ""),
-  ("btt", "+06:00"),
-  ("cat", "+02:00"),
-  ("cct", "+06:30"),
-  ("cdt", ""),
-  ("cest", "+02:00"),
-  ("cet", "+01:00"),
-  ("chadt", "+13:45"),
-  ("chast", "+12:45"),
-  ("chot", "+08:00"),
-  ("chost", "+09:00"),
-  ("chst", "+10:00"),
-  ("chut", "+10:00"),
-  ("cist", "-08:00"),
-  ("ckt", "-10:00"),
-  ("clst", "-03:00"),
-  ("clt", "-04:00"),
-  ("cost", "-04:00"),
-  ("cot", "-05:00"),
-  ("cst", ""),
-  ("ct", "-05:00"),
-  ("cvt", "-01:00"),
-  ("cwst", "+08:45"),
-  ("cxt", "+07:00"),
-  ("davt", "+07:00"),
-  ("ddut", "+10:00"),
-  ("dft", "+01:00"),
-  ("easst", "-05:00"),
-  ("east", "-06:00"),
-  ("eat", "+03:00"),
-  ("ect", ""),
-  ("edt", "-04:00"),
-  ("eest", "+03:00"),
-  ("eet", "+02:00"),
-  ("egst", "-00:00"),
-  ("egt", "-01:00"),
-  ("est", "-05:00"),
-  ("et", "-04:00"),
-  ("fet", "+03:00"),
-  ("fjt", "+12:00"),
-  ("fkst", "-03:00"),
-  ("fkt", "-04:00"),
-  ("fnt", "-02:00"),
-  ("galt", "-06:00"),
-  ("gamt", "-09:00"),
-  ("get", "+04:00"),
-  ("gft", "-03:00"),
-  ("gilt", "+12:00"),
-  ("git", "-09:00"),
-  ("gmt", "-00:00"),
-  ("gst", ""),
-  ("gyt", "-04:00"),
-  ("hdt", "-09:00"),
-  ("haec", "+02:00"),
-  ("hst", "-10:00"),
-  ("hkt", "+08:00"),
-  ("hmt", "+05:00"),
-  ("hovst", "+08:00"),
-  ("hovt", "+07:00"),
-  ("ict", "+07:00"),
-  ("idlw", "-12:00"),
-  ("idt", "+03:00"),
-  ("iot", "+03:00"),
-  ("irdt", "+04:30"),
-  ("irkt", "+08:00"),
-  ("irst", "+03:30"),
-  ("ist", ""),
-  ("jst", "+09:00"),
-  ("kalt", "+02:00"),
-  ("kgt", "+06:00"),
-  ("kost", "+11:00"),
-  ("krat", "+07:00"),
-  ("kst", "+09:00"),
-  ("lhst", ""),
-  ("lint", "+14:00"),
-  ("magt", "+12:00"),
-  ("mart", "-09:30"),
-  ("mawt", "+05:00"),
-  ("mdt", "-06:00"),
-  ("met", "+01:00"),
-  ("mest", "+02:00"),
-  ("mht", "+12:00"),
-  ("mist", "+11:00"),
-  ("mit", "-09:30"),
-  ("mmt", "+06:30"),
-  ("msk", "+03:00"),
-  ("mst", ""),
-  ("mut", "+04:00"),
-  ("mvt", "+05:00"),
-  ("myt", "+08:00"),
-  ("nct", "+11:00"),
-  ("ndt", "-02:30"),
-  ("nft", "+11:00"),
-  ("novt", "+07:00"),
-  ("npt", "+05:45"),
-  ("nst", "-03:30"),
-  ("nt", "-03:30"),
-  ("nut", "-11:00"),
-  ("nzdt", "+13:00"),
-  ("nzst", "+12:00"),
-  ("omst", "+06:00"),
-  ("orat", "+05:00"),
-  ("pdt", "-07:00"),
-  ("pet", "-05:00"),
-  ("pett", "+12:00"),
-  ("pgt", "+10:00"),
-  ("phot", "+13:00"),
-  ("pht", "+08:00"),
-  ("phst", "+08:00"),
-  ("pkt", "+05:00"),
-  ("pmdt", "-02:00"),
-  ("pmst", "-03:00"),
-  ("pont", "+11:00"),
-  ("pst", "-08:00"),
-  ("pwt", "+09:00"),
-  ("pyst", "-03:00"),
-  ("pyt", "-04:00"),
-  ("ret", "+04:00"),
-  ("rott", "-03:00"),
-  ("sakt", "+11:00"),
-  ("samt", "+04:00"),
-  ("sast", "+02:00"),
-  ("sbt", "+11:00"),
-  ("sct", "+04:00"),
-  ("sdt", "-10:00"),
-  ("sgt", "+08:00"),
-  ("slst", "+05:30"),
-  ("sret", "+11:00"),
-  ("srt", "-03:00"),
-  ("sst", ""),
-  ("syot", "+03:00"),
-  ("taht", "-10:00"),
-  ("tha", "+07:00"),
-  ("tft", "+05:00"),
-  ("tjt", "+05:00"),
-  ("tkt", "+13:00"),
-  ("tlt", "+09:00"),
-  ("tmt", "+05:00"),
-  ("trt", "+03:00"),
-  ("tot", "+13:00"),
-  ("tvt", "+12:00"),
-  ("ulast", "+09:00"),
-  ("ulat", "+08:00"),
-  ("ut", "-00:00"),
-  ("utc", "-00:00"),
-  ("uyst", "-02:00"),
-  ("uyt", "-03:00"),
-  ("uzt", "+05:00"),
-  ("vet", "-04:00"),
-  ("vlat", "+10:00"),
-  ("volt", "+03:00"),
-  ("vost", "+06:00"),
-  ("vut", "+11:00"),
-  ("wakt", "+12:00"),
-  ("wast", "+02:00"),
-  ("wat", "+01:00"),
-  ("west", "+01:00"),
-  ("wet", "-00:00"),
-  ("wib", "+07:00"),
-  ("wit", "+09:00"),
-  ("wita", "+08:00"),
-  ("wgst", "-02:00"),
-  ("wgt", "-03:00"),
-  ("wst", "+08:00"),
-  ("yakt", "+09:00"),
-  ("yekt", "+05:00"),
-  ("zulu", "+00:00"),
-  ("z", "+00:00")
-]
-/-- the same table as UTF-8 bytes -/
-def tzTableB : List (List UInt8 × List UInt8) := [
-  ([65, 67, 68, 84], [43, 49, 48, 58, 51, 48]),
-  ([65, 67, 83, 84], [43, 48, 57, 58, 51, 48]),
-  ([65, 67, 84], []),
-  ([65, 67, 87, 83, 84], [43, 48, 56, 58, 52, 53]),
-  ([65, 68, 84], [45, 48, 51, 58, 48, 48]),
-  ([65, 69, 68, 84], [43, 49, 49, 58, 48, 48]),
-  ([65, 69, 83, 84], [43, 49, 48, 58, 48, 48]),
-  ([65, 69, 84], [43, 49, 49, 58, 48, 48]),
-  ([65, 70, 84], [43, 48, 52, 58, 51, 48]),
-  ([65, 75, 68, 84], [45, 48, 56, 58, 48, 48]),
-  ([65, 75, 83, 84], [45, 48, 57, 58, 48, 48]),
-  ([65, 76, 77, 84], [43, 48, 54, 58, 48, 48]),
-  ([65, 77, 83, 84], [45, 48, 51, 58, 48, 48]),
-  ([65, 77, 84], []),
-  ([65, 78, 65, 84], [43, 49, 50, 58, 48, 48]),
-  ([65, 81, 84, 84], [43, 48, 53, 58, 48, 48]),
-  ([65, 82, 84], [45, 48, 51, 58, 48, 48]),
-  ([65, 83, 84], []),
-  ([65, 87, 83, 84], [43, 48, 56, 58, 48, 48]),
-  ([65, 90, 79, 83, 84], [43, 48, 48, 58, 48, 48]),
-  ([65, 90, 79, 84], [45, 48, 49, 58, 48, 48]),
-  ([65, 90, 84], [43, 48, 52, 58, 48, 48]),
-  ([66, 78, 84], [43, 48, 56, 58, 48, 48]),
-  ([66, 73, 79, 84], [43, 48, 54, 58, 48, 48]),
-  ([66, 73, 84], [45, 49, 50, 58, 48, 48]),
-  ([66, 79, 84], [45, 48, 52, 58, 48, 48]),
-  ([66, 82, 83, 84], [45, 48, 50, 58, 48, 48]),
-  ([66, 82, 84], [45, 48, 51, 58, 48, 48]),
-  ([66, 83, 84], []),
-  ([66, 84, 84], [43, 48, 54, 58, 48, 48]),
-  ([67, 65, 84], [43, 48, 50, 58, 48, 48]),
-  ([67, 67, 84], [43, 48, 54, 58, 51, 48]),
-  ([67, 68, 84], []),
-  ([67, 69, 83, 84], [43, 48, 50, 58, 48, 48]),
-  ([67, 69, 84], [43, 48, 49, 58, 48, 48]),
-  ([67, 72, 65, 68, 84], [43, 49, 51, 58, 52, 53]),
-  ([67, 72, 65, 83, 84], [43, 49, 50, 58, 52, 53]),
-  ([67, 72, 79, 84], [43, 48, 56, 58, 48, 48]),
-  ([67, 72, 79, 83, 84], [43, 48, 57, 58, 48, 48]),
-  ([67, 72, 83, 84], [43, 49, 48, 58, 48, 48]),
-  ([67, 72, 85, 84], [43, 49, 48, 58, 48, 48]),
-  ([67, 73, 83, 84], [45, 48, 56, 58, 48, 48]),
-  ([67, 75, 84], [45, 49, 48, 58, 48, 48]),
-  ([67, 76, 83, 84], [45, 48, 51, 58, 48, 48]),
-  ([67, 76, 84], [45, 48, 52, 58, 48, 48]),
-  ([67, 79, 83, 84], [45, 48, 52, 58, 48, 48]),
-  ([67, 79, 84], [45, 48, 53, 58, 48, 48]),
-  ([67, 83, 84], []),
-  ([67, 84], [45, 48, 53, 58, 48, 48]),
-  ([67, 86, 84], [45, 48, 49, 58, 48, 48]),
-  ([67, 87, 83, 84], [43, 48, 56, 58, 52, 53]),
-  ([67, 88, 84], [43, 48, 55, 58, 48, 48]),
-  ([68, 65, 86, 84], [43, 48, 55, 58, 48, 48]),
-  ([68, 68, 85, 84], [43, 49, 48, 58, 48, 48]),
-  ([68, 70, 84], [43, 48, 49, 58, 48, 48]),
-  ([69, 65, 83, 83, 84], [45, 48, 53, 58, 48, 48]),
-  ([69, 65, 83, 84], [45, 48, 54, 58, 48, 48]),
-  ([69, 65, 84], [43, 48, 51, 58, 48, 48]),
-  ([69, 67, 84], []),
-  ([69, 68, 84], [45, 48, 52, 58, 48, 48]),
-  ([69, 69, 83, 84], [43, 48, 51, 58, 48, 48]),
-  ([69, 69, 84], [43, 48, 50, 58, 48, 48]),
-  ([69, 71, 83, 84], [45, 48, 48, 58, 48, 48]),
-  ([69, 71, 84], [45, 48, 49, 58, 48, 48]),
-  ([69, 83, 84], [45, 48, 53, 58, 48, 48]),
-  ([69, 84], [45, 48, 52, 58, 48, 48]),
-  ([70, 69, 84], [43, 48, 51, 58, 48, 48]),
-  ([70, 74, 84], [43, 49, 50, 58, 48, 48]),
-  ([70, 75, 83, 84], [45, 48, 51, 58, 48, 48]),
-  ([70, 75, 84], [45, 48, 52, 58, 48, 48]),
-  ([70, 78, 84], [45, 48, 50, 58, 48, 48]),
-  ([71, 65, 76, 84], [45, 48, 54, 58, 48, 48]),
-  ([71, 65, 77, 84], [45, 48, 57, 58, 48, 48]),
-  ([71, 69, 84], [43, 48, 52, 58, 48, 48]),
-  ([71, 70, 84], [45, 48, 51, 58, 48, 48]),
-  ([71, 73, 76, 84], [43, 49, 50, 58, 48, 48]),
-  ([71, 73, 84], [45, 48, 57, 58, 48, 48]),
-  ([71, 77, 84], [45, 48, 48, 58, 48, 48]),
-  ([71, 83, 84], []),
-  ([71, 89, 84], [45, 48, 52, 58, 48, 48]),
-  ([72, 68, 84], [45, 48, 57, 58, 48, 48]),
-  ([72, 65, 69, 67], [43, 48, 50, 58, 48, 48]),
-  ([72, 83, 84], [45, 49, 48, 58, 48, 48]),
-  ([72, 75, 84], [43, 48, 56, 58, 48, 48]),
-  ([72, 77, 84], [43, 48, 53, 58, 48, 48]),
-  ([72, 79, 86, 83, 84], [43, 48, 56, 58, 48, 48]),
-  ([72, 79, 86, 84], [43, 48, 55, 58, 48, 48]),
-  ([73, 67, 84], [43, 48, 55, 58, 48, 48]),
-  ([73, 68, 76, 87], [45, 49, 50, 58, 48, 48]),
-  ([73, 68, 84], [43, 48, 51, 58, 48, 48]),
-  ([73, 79, 84], [43, 48, 51, 58, 48, 48]),
-  ([73, 82, 68, 84], [43, 48, 52, 58, 51, 48]),
-  ([73, 82, 75, 84], [43, 48, 56, 58, 48, 48]),
-  ([73, 82, 83, 84], [43, 48, 51, 58, 51, 48]),
-  ([73, 83, 84], []),
-  ([74, 83, 84], [43, 48, 57, 58, 48, 48]),
-  ([75, 65, 76, 84], [43, 48, 50, 58, 48, 48]),
-  ([75, 71, 84], [43, 48, 54, 58, 48, 48]),
-  ([75, 79, 83, 84], [43, 49, 49, 58, 48, 48]),
-  ([75, 82, 65, 84], [43, 48, 55, 58, 48, 48]),
-  ([75, 83, 84], [43, 48, 57, 58, 48, 48]),
-  ([76, 72, 83, 84], []),
-  ([76, 73, 78, 84], [43, 49, 52, 58, 48, 48]),
-  ([77, 65, 71, 84], [43, 49, 50, 58, 48, 48]),
-  ([77, 65, 82, 84], [45, 48, 57, 58, 51, 48]),
-  ([77, 65, 87, 84], [43, 48, 53, 58, 48, 48]),
-  ([77, 68, 84], [45, 48, 54, 58, 48, 48]),
-  ([77, 69, 84], [43, 48, 49, 58, 48, 48]),
-  ([77, 69, 83, 84], [43, 48, 50, 58, 48, 48]),
-  ([77, 72, 84], [43, 49, 50, 58, 48, 48]),
-  ([77, 73, 83, 84], [43, 49, 49, 58, 48, 48]),
-  ([77, 73, 84], [45, 48, 57, 58, 51, 48]),
-  ([77, 77, 84], [43, 48, 54, 58, 51, 48]),
-  ([77, 83, 75], [43, 48, 51, 58, 48, 48]),
-  ([77, 83, 84], []),
-  ([77, 85, 84], [43, 48, 52, 58, 48, 48]),
-  ([77, 86, 84], [43, 48, 53, 58, 48, 48]),
-  ([77, 89, 84], [43, 48, 56, 58, 48, 48]),
-  ([78, 67, 84], [43, 49, 49, 58, 48, 48]),
-  ([78, 68, 84], [45, 48, 50, 58, 51, 48]),
-  ([78, 70, 84], [43, 49, 49, 58, 48, 48]),
-  ([78, 79, 86, 84], [43, 48, 55, 58, 48, 48]),
-  ([78, 80, 84], [43, 48, 53, 58, 52, 53]),
-  ([78, 83, 84], [45, 48, 51, 58, 51, 48]),
-  ([78, 84], [45, 48, 51, 58, 51, 48]),
-  ([78, 85, 84], [45, 49, 49, 58, 48, 48]),
-  ([78, 90, 68, 84], [43, 49, 51, 58, 48, 48]),
-  ([78, 90, 83, 84], [43, 49, 50, 58, 48, 48]),
-  ([79, 77, 83, 84], [43, 48, 54, 58, 48, 48]),
-  ([79, 82, 65, 84], [43, 48, 53, 58, 48, 48]),
-  ([80, 68, 84], [45, 48, 55, 58, 48, 48]),
-  ([80, 69, 84], [45, 48, 53, 58, 48, 48]),
-  ([80, 69, 84, 84], [43, 49, 50, 58, 48, 48]),
-  ([80, 71, 84], [43, 49, 48, 58, 48, 48]),
-  ([80, 72, 79, 84], [43, 49, 51, 58, 48, 48]),
-  ([80, 72, 84], [43, 48, 56, 58, 48, 48]),
-  ([80, 72, 83, 84], [43, 48, 56, 58, 48, 48]),
-  ([80, 75, 84], [43, 48, 53, 58, 48, 48]),
-  ([80, 77, 68, 84], [45, 48, 50, 58, 48, 48]),
-  ([80, 77, 83, 84], [45, 48, 51, 58, 48, 48]),
-  ([80, 79, 78, 84], [43, 49, 49, 58, 48, 48]),
-  ([80, 83, 84], [45, 48, 56, 58, 48, 48]),
-  ([80, 87, 84], [43, 48, 57, 58, 48, 48]),
-  ([80, 89, 83, 84], [45, 48, 51, 58, 48, 48]),
-  ([80, 89, 84], [45, 48, 52, 58, 48, 48]),
-  ([82, 69, 84], [43, 48, 52, 58, 48, 48]),
-  ([82, 79, 84, 84], [45, 48, 51, 58, 48, 48]),
-  ([83, 65, 75, 84], [43, 49, 49, 58, 48, 48]),
-  ([83, 65, 77, 84], [43, 48, 52, 58, 48, 48]),
-  ([83, 65, 83, 84], [43, 48, 50, 58, 48, 48]),
-  ([83, 66, 84], [43, 49, 49, 58, 48, 48]),
-  ([83, 67, 84], [43, 48, 52, 58, 48, 48]),
-  ([83, 68, 84], [45, 49, 48, 58, 48, 48]),
-  ([83, 71, 84], [43, 48, 56, 58, 48, 48]),
-  ([83, 76, 83, 84], [43, 48, 53, 58, 51, 48]),
-  ([83, 82, 69, 84], [43, 49, 49, 58, 48, 48]),
-  ([83, 82, 84], [45, 48, 51, 58, 48, 48]),
-  ([83, 83, 84], []),
-  ([83, 89, 79, 84], [43, 48, 51, 58, 48, 48]),
-  ([84, 65, 72, 84], [45, 49, 48, 58, 48, 48]),
-  ([84, 72, 65], [43, 48, 55, 58, 48, 48]),
-  ([84, 70, 84], [43, 48, 53, 58, 48, 48]),
-  ([84, 74, 84], [43, 48, 53, 58, 48, 48]),
-  ([84, 75, 84], [43, 49, 51, 58, 48, 48]),
-  ([84, 76, 84], [43, 48, 57, 58, 48, 48]),
-  ([84, 77, 84], [43, 48, 53, 58, 48, 48]),
-  ([84, 82, 84], [43, 48, 51, 58, 48, 48]),
-  ([84, 79, 84], [43, 49, 51, 58, 48, 48]),
-  ([84, 86, 84], [43, 49, 50, 58, 48, 48]),
-  ([85, 76, 65, 83, 84], [43, 48, 57, 58, 48, 48]),
-  ([85, 76, 65, 84], [43, 48, 56, 58, 48, 48]),
-  ([85, 84], [45, 48, 48, 58, 48, 48]),
-  ([85, 84, 67], [45, 48, 48, 58, 48, 48]),
-  ([85, 89, 83, 84], [45, 48, 50, 58, 48, 48]),
-  ([85, 89, 84], [45, 48, 51, 58, 48, 48]),
-  ([85, 90, 84], [43, 48, 53, 58, 48, 48]),
-  ([86, 69, 84], [45, 48, 52, 58, 48, 48]),
-  ([86, 76, 65, 84], [43, 49, 48, 58, 48, 48]),
-  ([86, 79, 76, 84], [43, 48, 51, 58, 48, 48]),
-  ([86, 79, 83, 84], [43, 48, 54, 58, 48, 48]),
-  ([86, 85, 84], [43, 49, 49, 58, 48, 48]),
-  ([87, 65, 75, 84], [43, 49, 50, 58, 48, 48]),
-  ([87, 65, 83, 84], [43, 48, 50, 58, 48, 48]),
-  ([87, 65, 84], [43, 48, 49, 58, 48, 48]),
-  ([87, 69, 83, 84], [43, 48, 49, 58, 48, 48]),
-  ([87, 69, 84], [45, 48, 48, 58, 48, 48]),
-  ([87, 73, 66], [43, 48, 55, 58, 48, 48]),
-  ([87, 73, 84], [43, 48, 57, 58, 48, 48]),
-  ([87, 73, 84, 65], [43, 48, 56, 58, 48, 48]),
-  ([87, 71, 83, 84], [45, 48, 50, 58, 48, 48]),
-  ([87, 71, 84], [45, 48, 51, 58, 48, 48]),
-  ([87, 83, 84], [43, 48, 56, 58, 48, 48]),
-  ([89, 65, 75, 84], [43, 48, 57, 58, 48, 48]),
-  ([89, 69, 75, 84], [43, 48, 53, 58, 48, 48]),
-  ([90, 85, 76, 85], [43, 48, 48, 58, 48, 48]),
-  ([90], [43, 48, 48, 58, 48, 48]),
-  ([97, 99, 100, 116], [43, 49, 48, 58, 51, 48]),
-  ([97, 99, 115, 116], [43, 48, 57, 58, 51, 48]),
-  ([97, 99, 116], []),
-  ([97, 99, 119, 115, 116], [43, 48, 56, 58, 52, 53]),
-  ([97, 100, 116], [45, 48, 51, 58, 48, 48]),
-  ([97, 101, 100, 116], [43, 49, 49, 58, 48, 48]),
-  ([97, 101, 115, 116], [43, 49, 48, 58, 48, 48]),
-  ([97, 101, 116], [43, 49, 49, 58, 48, 48]),
-  ([97, 102, 116], [43, 48, 52, 58, 51, 48]),
-  ([97, 107, 100, 116], [45, 48, 56, 58, 48, 48]),
-  ([97, 107, 115, 116], [45, 48, 57, 58, 48, 48]),
-  ([97, 108, 109, 116], [43, 48, 54, 58, 48, 48]),
-  ([97, 109, 115, 116], [45, 48, 51, 58, 48, 48]),
-  ([97, 109, 116], []),
-  ([97, 110, 97, 116], [43, 49, 50, 58, 48, 48]),
-  ([97, 113, 116, 116], [43, 48, 53, 58, 48, 48]),
-  ([97, 114, 116], [45, 48, 51, 58, 48, 48]),
-  ([97, 115, 116], []),
-  ([97, 119, 115, 116], [43, 48, 56, 58, 48, 48]),
-  ([97, 122, 111, 115, 116], [45, 48, 48, 58, 48, 48]),
-  ([97, 122, 111, 116], [45, 48, 49, 58, 48, 48]),
-  ([97, 122, 116], [43, 48, 52, 58, 48, 48]),
-  ([98, 110, 116], [43, 48, 56, 58, 48, 48]),
-  ([98, 105, 111, 116], [43, 48, 54, 58, 48, 48]),
-  ([98, 105, 116], [45, 49, 50, 58, 48, 48]),
-  ([98, 111, 116], [45, 48, 52, 58, 48, 48]),
-  ([98, 114, 115, 116], [45, 48, 50, 58, 48, 48]),
-  ([98, 114, 116], [45, 48, 51, 58, 48, 48]),
-  ([98, 115, 116], []),
-  ([98, 116, 116], [43, 48, 54, 58, 48, 48]),
-  ([99, 97, 116], [43, 48, 50, 58, 48, 48]),
-  ([99, 99, 116], [43, 48, 54, 58, 51, 48]),
-  ([99, 100, 116], []),
-  ([99, 101, 115, 116], [43, 48, 50, 58, 48, 48]),
-  ([99, 101, 116], [43, 48, 49, 58, 48, 48]),
-  ([99, 104, 97, 100, 116], [43, 49, 51, 58, 52, 53]),
-  ([99, 104, 97, 115, 116], [43, 49, 50, 58, 52, 53]),
-  ([99, 104, 111, 116], [43, 48, 56, 58, 48, 48]),
-  ([99, 104, 111, 115, 116], [43, 48, 57, 58, 48, 48]),
-  ([99, 104, 115, 116], [43, 49, 48, 58, 48, 48]),
-  ([99, 104, 117, 116], [43, 49, 48, 58, 48, 48]),
-  ([99, 105, 115, 116], [45, 48, 56, 58, 48, 48]),
-  ([99, 107, 116], [45, 49, 48, 58, 48, 48]),
-  ([99, 108, 115, 116], [45, 48, 51, 58, 48, 48]),
-  ([99, 108, 116], [45, 48, 52, 58, 48, 48]),
-  ([99, 111, 115, 116], [45, 48, 52, 58, 48, 48]),
-  ([99, 111, 116], [45, 48, 53, 58, 48, 48]),
-  ([99, 115, 116], []),
-  ([99, 116], [45, 48, 53, 58, 48, 48]),
-  ([99, 118, 116], [45, 48, 49, 58, 48, 48]),
-  ([99, 119, 115, 116], [43, 48, 56, 58, 52, 53]),
-  ([99, 120, 116], [43, 48, 55, 58, 48, 48]),
-  ([100, 97, 118, 116], [43, 48, 55, 58, 48, 48]),
-  ([100, 100, 117, 116], [43, 49, 48, 58, 48, 48]),
-  ([100, 102, 116], [43, 48, 49, 58, 48, 48]),
-  ([101, 97, 115, 115, 116], [45, 48, 53, 58, 48, 48]),
-  ([101, 97, 115, 116], [45, 48, 54, 58, 48, 48]),
-  ([101, 97, 116], [43, 48, 51, 58, 48, 48]),
-  ([101, 99, 116], []),
-  ([101, 100, 116], [45, 48, 52, 58, 48, 48]),
-  ([101, 101, 115, 116], [43, 48, 51, 58, 48, 48]),
-  ([101, 101, 116], [43, 48, 50, 58, 48, 48]),
-  ([101, 103, 115, 116], [45, 48, 48, 58, 48, 48]),
-  ([101, 103, 116], [45, 48, 49, 58, 48, 48]),
-  ([101, 115, 116], [45, 48, 53, 58, 48, 48]),
-  ([101, 116], [45, 48, 52, 58, 48, 48]),
-  ([102, 101, 116], [43, 48, 51, 58, 48, 48]),
-  ([102, 106, 116], [43, 49, 50, 58, 48, 48]),
-  ([102, 107, 115, 116], [45, 48, 51, 58, 48, 48]),
-  ([102, 107, 116], [45, 48, 52, 58, 48, 48]),
-  ([102, 110, 116], [45, 48, 50, 58, 48, 48]),
-  ([103, 97, 108, 116], [45, 48, 54, 58, 48, 48]),
-  ([103, 97, 109, 116], [45, 48, 57, 58, 48, 48]),
-  ([103, 101, 116], [43, 48, 52, 58, 48, 48]),
-  ([103, 102, 116], [45, 48, 51, 58, 48, 48]),
-  ([103, 105, 108, 116], [43, 49, 50, 58, 48, 48]),
-  ([103, 105, 116], [45, 48, 57, 58, 48, 48]),
-  ([103, 109, 116], [45, 48, 48, 58, 48, 48]),
-  ([103, 115, 116], []),
-  ([103, 121, 116], [45, 48, 52, 58, 48, 48]),
-  ([104, 100, 116], [45, 48, 57, 58, 48, 48]),
-  ([104, 97, 101, 99], [43, 48, 50, 58, 48, 48]),
-  ([104, 115, 116], [45, 49, 48, 58, 48, 48]),
-  ([104, 107, 116], [43, 48, 56, 58, 48, 48]),
-  ([104, 109, 116], [43, 48, 53, 58, 48, 48]),
-  ([104, 111, 118, 115, 116], [43, 48, 56, 58, 48, 48]),
-  ([104, 111, 118, 116], [43, 48, 55, 58, 48, 48]),
-  ([105, 99, 116], [43, 48, 55, 58, 48, 48]),
-  ([105, 100, 108, 119], [45, 49, 50, 58, 48, 48]),
-  ([105, 100, 116], [43, 48, 51, 58, 48, 48]),
-  ([105, 111, 116], [43, 48, 51, 58, 48, 48]),
-  ([105, 114, 100, 116], [43, 48, 52, 58, 51, 48]),
-  ([105, 114, 107, 116], [43, 48, 56, 58, 48, 48]),
-  ([105, 114, 115, 116], [43, 48, 51, 58, 51, 48]),
-  ([105, 115, 116], []),
-  ([106, 115, 116], [43, 48, 57, 58, 48, 48]),
-  ([107, 97, 108, 116], [43, 48, 50, 58, 48, 48]),
-  ([107, 103, 116], [43, 48, 54, 58, 48, 48]),
-  ([107, 111, 115, 116], [43, 49, 49, 58, 48, 48]),
-  ([107, 114, 97, 116], [43, 48, 55, 58, 48, 48]),
-  ([107, 115, 116], [43, 48, 57, 58, 48, 48]),
-  ([108, 104, 115, 116], []),
-  ([108, 105, 110, 116], [43, 49, 52, 58, 48, 48]),
-  ([109, 97, 103, 116], [43, 49, 50, 58, 48, 48]),
-  ([109, 97, 114, 116], [45, 48, 57, 58, 51, 48]),
-  ([109, 97, 119, 116], [43, 48, 53, 58, 48, 48]),
-  ([109, 100, 116], [45, 48, 54, 58, 48, 48]),
-  ([109, 101, 116], [43, 48, 49, 58, 48, 48]),
-  ([109, 101, 115, 116], [43, 48, 50, 58, 48, 48]),
-  ([109, 104, 116], [43, 49, 50, 58, 48, 48]),
-  ([109, 105, 115, 116], [43, 49, 49, 58, 48, 48]),
-  ([109, 105, 116], [45, 48, 57, 58, 51, 48]),
-  ([109, 109, 116], [43, 48, 54, 58, 51, 48]),
-  ([109, 115, 107], [43, 48, 51, 58, 48, 48]),
-  ([109, 115, 116], []),
-  ([109, 117, 116], [43, 48, 52, 58, 48, 48]),
-  ([109, 118, 116], [43, 48, 53, 58, 48, 48]),
-  ([109, 121, 116], [43, 48, 56, 58, 48, 48]),
-  ([110, 99, 116], [43, 49, 49, 58, 48, 48]),
-  ([110, 100, 116], [45, 48, 50, 58, 51, 48]),
-  ([110, 102, 116], [43, 49, 49, 58, 48, 48]),
-  ([110, 111, 118, 116], [43, 48, 55, 58, 48, 48]),
-  ([110, 112, 116], [43, 48, 53, 58, 52, 53]),
-  ([110, 115, 116], [45, 48, 51, 58, 51, 48]),
-  ([110, 116], [45, 48, 51, 58, 51, 48]),
-  ([110, 117, 116], [45, 49, 49, 58, 48, 48]),
-  ([110, 122, 100, 116], [43, 49, 51, 58, 48, 48]),
-  ([110, 122, 115, 116], [43, 49, 50, 58, 48, 48]),
-  ([111, 109, 115, 116], [43, 48, 54, 58, 48, 48]),
-  ([111, 114, 97, 116], [43, 48, 53, 58, 48, 48]),
-  ([112, 100, 116], [45, 48, 55, 58, 48, 48]),
-  ([112, 101, 116], [45, 48, 53, 58, 48, 48]),
-  ([112, 101, 116, 116], [43, 49, 50, 58, 48, 48]),
-  ([112, 103, 116], [43, 49, 48, 58, 48, 48]),
-  ([112, 104, 111, 116], [43, 49, 51, 58, 48, 48]),
-  ([112, 104, 116], [43, 48, 56, 58, 48, 48]),
-  ([112, 104, 115, 116], [43, 48, 56, 58, 48, 48]),
-  ([112, 107, 116], [43, 48, 53, 58, 48, 48]),
-  ([112, 109, 100, 116], [45, 48, 50, 58, 48, 48]),
-  ([112, 109, 115, 116], [45, 48, 51, 58, 48, 48]),
-  ([112, 111, 110, 116], [43, 49, 49, 58, 48, 48]),
-  ([112, 115, 116], [45, 48, 56, 58, 48, 48]),
-  ([112, 119, 116], [43, 48, 57, 58, 48, 48]),
-  ([112, 121, 115, 116], [45, 48, 51, 58, 48, 48]),
-  ([112, 121, 116], [45, 48, 52, 58, 48, 48]),
-  ([114, 101, 116], [43, 48, 52, 58, 48, 48]),
-  ([114, 111, 116, 116], [45, 48, 51, 58, 48, 48]),
-  ([115, 97, 107, 116], [43, 49, 49, 58, 48, 48]),
-  ([115, 97, 109, 116], [43, 48, 52, 58, 48, 48]),
-  ([115, 97, 115, 116], [43, 48, 50, 58, 48, 48]),
-  ([115, 98, 116], [43, 49, 49, 58, 48, 48]),
-  ([115, 99, 116], [43, 48, 52, 58, 48, 48]),
-  ([115, 100, 116], [45, 49, 48, 58, 48, 48]),
-  ([115, 103, 116], [43, 48, 56, 58, 48, 48]),
-  ([115, 108, 115, 116], [43, 48, 53, 58, 51, 48]),
-  ([115, 114, 101, 116], [43, 49, 49, 58, 48, 48]),
-  ([115, 114, 116], [45, 48, 51, 58, 48, 48]),
-  ([115, 115, 116], []),
-  ([115, 121, 111, 116], [43, 48, 51, 58, 48, 48]),
-  ([116, 97, 104, 116], [45, 49, 48, 58, 48, 48]),
-  ([116, 104, 97], [43, 48, 55, 58, 48, 48]),
-  ([116, 102, 116], [43, 48, 53, 58, 48, 48]),
-  ([116, 106, 116], [43, 48, 53, 58, 48, 48]),
-  ([116, 107, 116], [43, 49, 51, 58, 48, 48]),
-  ([116, 108, 116], [43, 48, 57, 58, 48, 48]),
-  ([116, 109, 116], [43, 48, 53, 58, 48, 48]),
-  ([116, 114, 116], [43, 48, 51, 58, 48, 48]),
-  ([116, 111, 116], [43, 49, 51, 58, 48, 48]),
-  ([116, 118, 116], [43, 49, 50, 58, 48, 48]),
-  ([117, 108, 97, 115, 116], [43, 48, 57, 58, 48, 48]),
-  ([117, 108, 97, 116], [43, 48, 56, 58, 48, 48]),
-  ([117, 116], [45, 48, 48, 58, 48, 48]),
-  ([117, 116, 99], [45, 48, 48, 58, 48, 48]),
-  ([117, 121, 115, 116], [45, 48, 50, 58, 48, 48]),
-  ([117, 121, 116], [45, 48, 51, 58, 48, 48]),
-  ([117, 122, 116], [43, 48, 53, 58, 48, 48]),
-  ([118, 101, 116], [45, 48, 52, 58, 48, 48]),
-  ([118, 108, 97, 116], [43, 49, 48, 58, 48, 48]),
-  ([118, 111, 108, 116], [43, 48, 51, 58, 48, 48]),
-  ([118, 111, 115, 116], [43, 48, 54, 58, 48, 48]),
-  ([118, 117, 116], [43, 49, 49, 58, 48, 48]),
-  ([119, 97, 107, 116], [43, 49, 50, 58, 48, 48]),
-  ([119, 97, 115, 116], [43, 48, 50, 58, 48, 48]),
-  ([119, 97, 116], [43, 48, 49, 58, 48, 48]),
-  ([119, 101, 115, 116], [43, 48, 49, 58, 48, 48]),
-  ([119, 101, 116], [45, 48, 48, 58, 48, 48]),
-  ([119, 105, 98], [43, 48, 55, 58, 48, 48]),
-  ([119, 105, 116], [43, 48, 57, 58, 48, 48]),
-  ([119, 105, 116, 97], [43, 48, 56, 58, 48, 48]),
-  ([119, 103, 115, 116], [45, 48, 50, 58, 48, 48]),
-  ([119, 103, 116], [45, 48, 51, 58, 48, 48]),
-  ([119, 115, 116], [43, 48, 56, 58, 48, 48]),
-  ([121, 97, 107, 116], [43, 48, 57, 58, 48, 48]),
-  ([121, 101, 107, 116], [43, 48, 53, 58, 48, 48]),
-  ([122, 117, 108, 117], [43, 48, 48, 58, 48, 48]),
-  ([122], [43, 48, 48, 58, 48, 48])
-]
-
-/-- arms of `month_bB_to_month_m_bytes` in match order: accepted name -> two-digit month -/
-def monthNames : List (String × String) := [
-  ("jan", "01"),
-  ("Jan", "01"),
-  ("JAN", "01"),
-  ("feb", "02"),
-  ("Feb", "02"),
-  ("FEB", "02"),
-  ("mar", "03"),
-  ("Mar", "03"),
-  ("MAR", "03"),
-  ("apr", "04"),
-  ("Apr", "04"),
-  ("APR", "04"),
-  ("may", "05"),
-  ("May", "05"),
-  ("MAY", "05"),
-  ("jun", "06"),
-  ("Jun", "06"),
-  ("JUN", "06"),
-  ("jul", "07"),
-  ("Jul", "07"),
-  ("JUL", "07"),
-  ("aug", "08"),
-  ("Aug", "08"),
-  ("AUG", "08"),
-  ("sep", "09"),
-  ("Sep", "09"),
-  ("SEP", "09"),
-  ("oct", "10"),
-  ("Oct", "10"),
-  ("OCT", "10"),
-  ("nov", "11"),
-  ("Nov", "11"),
-  ("NOV", "11"),
-  ("dec", "12"),
-  ("Dec", "12"),
-  ("DEC", "12"),
-  ("jan.", "01"),
-  ("Jan.", "01"),
-  ("JAN.", "01"),
-  ("feb.", "02"),
-  ("Feb.", "02"),
-  ("FEB.", "02"),
-  ("mar.", "03"),
-  ("Mar.", "03"),
-  ("MAR.", "03"),
-  ("apr.", "04"),
-  ("Apr.", "04"),
-  ("APR.", "04"),
-  ("jun.", "06"),
-  ("Jun.", "06"),
-  ("JUN.", "06"),
-  ("jul.", "07"),
-  ("Jul.", "07"),
-  ("JUL.", "07"),
-  ("aug.", "08"),
-  ("Aug.", "08"),
-  ("AUG.", "08"),
-  ("sep.", "09"),
-  ("Sep.", "09"),
-  ("SEP.", "09"),
-  ("oct.", "10"),
-  ("Oct.", "10"),
-  ("OCT.", "10"),
-  ("nov.", "11"),
-  ("Nov.", "11"),
-  ("NOV.", "11"),
-  ("dec.", "12"),
-  ("Dec.", "12"),
-  ("DEC.", "12"),
-  ("january", "01"),
-  ("January", "01"),
-  ("JANUARY", "01"),
-  ("february", "02"),
-  ("February", "02"),
-  ("FEBRUARY", "02"),
-  ("march", "03"),
-  ("March", "03"),
-  ("MARCH", "03"),
-  ("april", "04"),
-  ("April", "04"),
-  ("APRIL", "04"),
-  ("june", "06"),
-  ("June", "06"),
-  ("JUNE", "06"),
-  ("july", "07"),
-  ("July", "07"),
-  ("JULY", "07"),
-  ("august", "08"),
-  ("August", "08"),
-  ("AUGUST", "08"),
-  ("september", "09"),
-  ("September", "09"),
-  ("SEPTEMBER", "09"),
-  ("october", "10"),
-  ("October", "10"),
-  ("OCTOBER", "10"),
-  ("november", "11"),
-  ("November", "11"),
-  ("NOVEMBER", "11"),
-  ("december", "12"),
-  ("December", "12"),
-  ("DECEMBER", "12")
-]
-def monthNamesB : List (List UInt8 × List UInt8) := [
-  ([106, 97, 110], [48, 49]),
-  ([74, 97, 110], [48, 49]),
-  ([74, 65, 78], [48, 49]),
-  ([102, 101, 98], [48, 50]),
-  ([70, 101, 98], [48, 50]),
-  ([70, 69, 66], [48, 50]),
-  ([109, 97, 114], [48, 51]),
-  ([77, 97, 114], [48, 51]),
-  ([77, 65, 82], [48, 51]),
-  ([97, 112, 114], [48, 52]),
-  ([65, 112, 114], [48, 52]),
-  ([65, 80, 82], [48, 52]),
-  ([109, 97, 121], [48, 53]),
-  ([77, 97, 121], [48, 53]),
-  ([77, 65, 89], [48, 53]),
-  ([106, 117, 110], [48, 54]),
-  ([74, 117, 110], [48, 54]),
-  ([74, 85, 78], [48, 54]),
-  ([106, 117, 108], [48, 55]),
-  ([74, 117, 108], [48, 55]),
-  ([74, 85, 76], [48, 55]),
-  ([97, 117, 103], [48, 56]),
-  ([65, 117, 103], [48, 56]),
-  ([65, 85, 71], [48, 56]),
-  ([115, 101, 112], [48, 57]),
-  ([83, 101, 112], [48, 57]),
-  ([83, 69, 80], [48, 57]),
-  ([111, 99, 116], [49, 48]),
-  ([79, 99, 116], [49, 48]),
-  ([79, 67, 84], [49, 48]),
-  ([110, 111, 118], [49, 49]),
-  ([78, 111, 118], [49, 49]),
-  ([78, 79, 86], [49, 49]),
-  ([100, 101, 99], [49, 50]),
-  ([68, 101, 99], [49, 50]),
-  ([68, 69, 67], [49, 50]),
-  ([106, 97, 110, 46], [48, 49]),
-  ([74, 97, 110, 46], [48, 49]),
-  ([74, 65, 78, 46], [48, 49]),
-  ([102, 101, 98, 46], [48, 50]),
-  ([70, 101, 98, 46], [48, 50]),
-  ([70, 69, 66, 46], [48, 50]),
-  ([109, 97, 114, 46], [48, 51]),
-  ([77, 97, 114, 46], [48, 51]),
-  ([77, 65, 82, 46], [48, 51]),
-  ([97, 112, 114, 46], [48, 52]),
-  ([65, 112, 114, 46], [48, 52]),
-  ([65, 80, 82, 46], [48, 52]),
-  ([106, 117, 110, 46], [48, 54]),
-  ([74, 117, 110, 46], [48, 54]),
-  ([74, 85, 78, 46], [48, 54]),
-  ([106, 117, 108, 46], [48, 55]),
-  ([74, 117, 108, 46], [48, 55]),
-  ([74, 85, 76, 46], [48, 55]),
-  ([97, 117, 103, 46], [48, 56]),
-  ([65, 117, 103, 46], [48, 56]),
-  ([65, 85, 71, 46], [48, 56]),
-  ([115, 101, 112, 46], [48, 57]),
-  ([83, 101, 112, 46], [48, 57]),
-  ([83, 69, 80, 46], [48, 57]),
-  ([111, 99, 116, 46], [49, 48]),
-  ([79, 99, 116, 46], [49, 48]),
-  ([79, 67, 84, 46], [49, 48]),
-  ([110, 111, 118, 46], [49, 49]),
-  ([78, 111, 118, 46], [49, 49]),
-  ([78, 79, 86, 46], [49, 49]),
-  ([100, 101, 99, 46], [49, 50]),
-  ([68, 101, 99, 46], [49, 50]),
-  ([68, 69, 67, 46], [49, 50]),
-  ([106, 97, 110, 117, 97, 114, 121], [48, 49]),
-  ([74, 97, 110, 117, 97, 114, 121], [48, 49]),
-  ([74, 65, 78, 85, 65, 82, 89], [48, 49]),
-  ([102, 101, 98, 114, 117, 97, 114, 121], [48, 50]),
-  ([70, 101, 98, 114, 117, 97, 114, 121], [48, 50]),
-  ([70, 69, 66, 82, 85, 65, 82, 89], [48, 50]),
-  ([109, 97, 114, 99, 104], [48, 51]),
-  ([77, 97, 114, 99, 104], [48, 51]),
-  ([77, 65, 82, 67, 72], [48, 51]),
-  ([97, 112, 114, 105, 108], [48, 52]),
-  ([65, 112, 114, 105, 108], [48, 52]),
-  ([65, 80, 82, 73, 76], [48, 52]),
-  ([106, 117, 110, 101], [48, 54]),
-  ([74, 117, 110, 101], [48, 54]),
-  ([74, 85, 78, 69], [48, 54]),
-  ([106, 117, 108, 121], [48, 55]),
-  ([74, 117, 108, 121], [48, 55]),
-  ([74, 85, 76, 89], [48, 55]),
-  ([97, 117, 103, 117, 115, 116], [48, 56]),
-  ([65, 117, 103, 117, 115, 116], [48, 56]),
-  ([65, 85, 71, 85, 83, 84], [48, 56]),
-  ([115, 101, 112, 116, 101, 109, 98, 101, 114], [48, 57]),
-  ([83, 101, 112, 116, 101, 109, 98, 101, 114], [48, 57]),
-  ([83, 69, 80, 84, 69, 77, 66, 69, 82], [48, 57]),
-  ([111, 99, 116, 111, 98, 101, 114], [49, 48]),
-  ([79, 99, 116, 111, 98, 101, 114], [49, 48]),
-  ([79, 67, 84, 79, 66, 69, 82], [49, 48]),
-  ([110, 111, 118, 101, 109, 98, 101, 114], [49, 49]),
-  ([78, 111, 118, 101, 109, 98, 101, 114], [49, 49]),
-  ([78, 79, 86, 69, 77, 66, 69, 82], [49, 49]),
-  ([100, 101, 99, 101, 109, 98, 101, 114], [49, 50]),
-  ([68, 101, 99, 101, 109, 98, 101, 114], [49, 50]),
-  ([68, 69, 67, 69, 77, 66, 69, 82], [49, 50])
-]
-
-def YEAR_FALLBACKDUMMY : List UInt8 := [49, 57, 55, 50]
-/-- U+2212 MINUS SIGN as UTF-8 -/
-def MINUS_SIGN : List UInt8 := [226, 136, 146]
-def HYPHEN_MINUS : List UInt8 := [45]
-/-- `BUFLEN` in `bytes_to_regex_to_datetime` -/
-def BUFLEN : Nat := 35
-
-/-- one `DTPD!` row of `DATETIME_PARSE_DATAS` -/
-structure Row where
-  idx : Nat
-  dtfsName : String
-  dtfs : DTFSSet
-  rangeStart : Nat
-  rangeEnd : Nat
-  cgnFirst : String
-  cgnLast : String
-  /-- the regex text contains the named group … -/
-  hasYearGroup : Bool
-  hasTzGroup : Bool
-  hasFractionalGroup : Bool
-deriving Repr
-
-def rows : List Row := [
-  ⟨0, "DTFSS_YmdHMSf", DTFSS_YmdHMSf, 0, 40, "year", "fractional", true, false, true⟩,
-  ⟨1, "DTFSS_YmdHMSfz", DTFSS_YmdHMSfz, 0, 40, "year", "tz", true, true, true⟩,
-  ⟨2, "DTFSS_YmdHMSfzc", DTFSS_YmdHMSfzc, 0, 40, "year", "tz", true, true, true⟩,
-  ⟨3, "DTFSS_YmdHMSfzp", DTFSS_YmdHMSfzp, 0, 40, "year", "tz", true, true, true⟩,
-  ⟨4, "DTFSS_YmdHMSfZ", DTFSS_YmdHMSfZ, 0, 40, "year", "tz", true, true, true⟩,
-  ⟨5, "DTFSS_YmdHMSf", DTFSS_YmdHMSf, 0, 40, "year", "fractional", true, false, true⟩,
-  ⟨6, "DTFSS_ybdHMS", DTFSS_ybdHMS, 0, 40, "day", "second", true, false, false⟩,
-  ⟨7, "DTFSS_YmdHMSfzc", DTFSS_YmdHMSfzc, 0, 50, "year", "tz", true, true, true⟩,
-  ⟨8, "DTFSS_YmdHMSfz", DTFSS_YmdHMSfz, 0, 50, "year", "tz", true, true, true⟩,
-  ⟨9, "DTFSS_YmdHMSfzp", DTFSS_YmdHMSfzp, 0, 50, "year", "tz", true, true, true⟩,
-  ⟨10, "DTFSS_YmdHMSfZ", DTFSS_YmdHMSfZ, 0, 50, "year", "tz", true, true, true⟩,
-  ⟨11, "DTFSS_YmdHMSf", DTFSS_YmdHMSf, 0, 50, "year", "fractional", true, false, true⟩,
-  ⟨12, "DTFSS_YmdHMSzc", DTFSS_YmdHMSzc, 0, 46, "year", "tz", true, true, false⟩,
-  ⟨13, "DTFSS_YmdHMSzp", DTFSS_YmdHMSzp, 0, 50, "year", "tz", true, true, false⟩,
-  ⟨14, "DTFSS_YmdHMSZ", DTFSS_YmdHMSZ, 0, 50, "year", "tz", true, true, false⟩,
-  ⟨15, "DTFSS_YmdHMS", DTFSS_YmdHMS, 0, 45, "year", "second", true, false, false⟩,
-  ⟨16, "DTFSS_BdHMSYzc", DTFSS_BdHMSYzc, 0, 40, "month", "tz", true, true, false⟩,
-  ⟨17, "DTFSS_BdHMSYzp", DTFSS_BdHMSYzp, 0, 40, "month", "tz", true, true, false⟩,
-  ⟨18, "DTFSS_BdHMSYZ", DTFSS_BdHMSYZ, 0, 40, "month", "tz", true, true, false⟩,
-  ⟨19, "DTFSS_BdHMSY", DTFSS_BdHMSY, 0, 35, "month", "year", true, false, false⟩,
-  ⟨20, "DTFSS_BdHMSYzc", DTFSS_BdHMSYzc, 0, 40, "month", "year", true, true, false⟩,
-  ⟨21, "DTFSS_BdHMSYzp", DTFSS_BdHMSYzp, 0, 40, "month", "year", true, true, false⟩,
-  ⟨22, "DTFSS_BdHMSYZ", DTFSS_BdHMSYZ, 0, 40, "month", "year", true, true, false⟩,
-  ⟨23, "DTFSS_BdHMS", DTFSS_BdHMS, 0, 30, "month", "second", false, false, false⟩,
-  ⟨24, "DTFSS_YmdHMS", DTFSS_YmdHMS, 0, 50, "year", "second", true, false, false⟩,
-  ⟨25, "DTFSS_YbdHMS", DTFSS_YbdHMS, 0, 140, "dayIgnore", "year", true, false, false⟩,
-  ⟨26, "DTFSS_YmdHMSf", DTFSS_YmdHMSf, 0, 40, "month", "fractional", true, false, true⟩,
-  ⟨27, "DTFSS_BdHMSYZ", DTFSS_BdHMSYZ, 0, 40, "month", "tz", true, true, false⟩,
-  ⟨28, "DTFSS_BdHMSYzc", DTFSS_BdHMSYzc, 0, 40, "month", "tz", true, true, false⟩,
-  ⟨29, "DTFSS_BdHMSYz", DTFSS_BdHMSYz, 0, 40, "month", "tz", true, true, false⟩,
-  ⟨30, "DTFSS_BdHMSYzp", DTFSS_BdHMSYzp, 0, 40, "month", "tz", true, true, false⟩,
-  ⟨31, "DTFSS_BdHMSY", DTFSS_BdHMSY, 0, 35, "month", "year", true, false, false⟩,
-  ⟨32, "DTFSS_BdHMSZ", DTFSS_BdHMSZ, 0, 35, "month", "tz", false, true, false⟩,
-  ⟨33, "DTFSS_BdHMS", DTFSS_BdHMS, 0, 22, "month", "second", false, false, false⟩,
-  ⟨34, "DTFSS_BdHMSYz", DTFSS_BdHMSYz, 0, 45, "dayIgnore", "tz", true, true, false⟩,
-  ⟨35, "DTFSS_BdHMSYzc", DTFSS_BdHMSYzc, 0, 45, "dayIgnore", "tz", true, true, false⟩,
-  ⟨36, "DTFSS_BdHMSYzp", DTFSS_BdHMSYzp, 0, 45, "dayIgnore", "tz", true, true, false⟩,
-  ⟨37, "DTFSS_BdHMSYZ", DTFSS_BdHMSYZ, 0, 45, "dayIgnore", "tz", true, true, false⟩,
-  ⟨38, "DTFSS_BdHMSYz", DTFSS_BdHMSYz, 0, 45, "dayIgnore", "tz", true, true, false⟩,
-  ⟨39, "DTFSS_BdHMSYzc", DTFSS_BdHMSYzc, 0, 45, "dayIgnore", "tz", true, true, false⟩,
-  ⟨40, "DTFSS_BdHMSYZ", DTFSS_BdHMSYZ, 0, 45, "dayIgnore", "tz", true, true, false⟩,
-  ⟨41, "DTFSS_BdHMSYz", DTFSS_BdHMSYz, 0, 45, "dayIgnore", "tz", true, true, false⟩,
-  ⟨42, "DTFSS_BdHMSYzc", DTFSS_BdHMSYzc, 0, 45, "dayIgnore", "tz", true, true, false⟩,
-  ⟨43, "DTFSS_BdHMSYZ", DTFSS_BdHMSYZ, 0, 45, "dayIgnore", "tz", true, true, false⟩,
-  ⟨44, "DTFSS_YmdHMS", DTFSS_YmdHMS, 0, 35, "year", "second", true, false, false⟩,
-  ⟨45, "DTFSS_YmdHMS", DTFSS_YmdHMS, 0, 30, "year", "second", true, false, false⟩,
-  ⟨46, "DTFSS_bdHMSYz", DTFSS_bdHMSYz, 0, 300, "day", "tz", true, true, false⟩,
-  ⟨47, "DTFSS_bdHMSYZ", DTFSS_bdHMSYZ, 0, 300, "day", "tz", true, true, false⟩,
-  ⟨48, "DTFSS_bdHMSYzc", DTFSS_bdHMSYzc, 0, 300, "day", "tz", true, true, false⟩,
-  ⟨49, "DTFSS_bdHMSYzp", DTFSS_bdHMSYzp, 0, 300, "day", "tz", true, true, false⟩,
-  ⟨50, "DTFSS_bdHMSY", DTFSS_bdHMSY, 0, 300, "day", "second", true, false, false⟩,
-  ⟨51, "DTFSS_bdHMSYfz", DTFSS_bdHMSYfz, 0, 300, "day", "tz", true, true, true⟩,
-  ⟨52, "DTFSS_bdHMSYfzc", DTFSS_bdHMSYfzc, 0, 300, "day", "tz", true, true, true⟩,
-  ⟨53, "DTFSS_bdHMSYfzp", DTFSS_bdHMSYfzp, 0, 300, "day", "tz", true, true, true⟩,
-  ⟨54, "DTFSS_bdHMSYf", DTFSS_bdHMSYf, 0, 300, "day", "fractional", true, false, true⟩,
-  ⟨55, "DTFSS_YmdHMSf", DTFSS_YmdHMSf, 0, 300, "month", "fractional", true, false, true⟩,
-  ⟨56, "DTFSS_bdHMSYf", DTFSS_bdHMSYf, 0, 300, "dayIgnore", "year", true, false, true⟩,
-  ⟨57, "DTFSS_bdHMSY", DTFSS_bdHMSY, 0, 300, "dayIgnore", "year", true, false, false⟩,
-  ⟨58, "DTFSS_bdHMSYf", DTFSS_bdHMSYf, 0, 30, "day", "fractional", true, false, true⟩,
-  ⟨59, "DTFSS_YmsdkMS", DTFSS_YmsdkMS, 0, 1024, "year", "second", true, false, false⟩,
-  ⟨60, "DTFSS_YbdHMSzc", DTFSS_YbdHMSzc, 0, 60, "dayIgnore", "tz", true, true, false⟩,
-  ⟨61, "DTFSS_YbdHMSz", DTFSS_YbdHMSz, 0, 60, "dayIgnore", "tz", true, true, false⟩,
-  ⟨62, "DTFSS_YbdHMSzp", DTFSS_YbdHMSzp, 0, 60, "dayIgnore", "tz", true, true, false⟩,
-  ⟨63, "DTFSS_YbdHMSZ", DTFSS_YbdHMSZ, 0, 65, "dayIgnore", "tz", true, true, false⟩,
-  ⟨64, "DTFSS_YbdHMS", DTFSS_YbdHMS, 0, 60, "dayIgnore", "second", true, false, false⟩,
-  ⟨65, "DTFSS_YbdHMSzc", DTFSS_YbdHMSzc, 0, 120, "dayIgnore", "tz", true, true, false⟩,
-  ⟨66, "DTFSS_YbdHMSz", DTFSS_YbdHMSz, 0, 120, "dayIgnore", "tz", true, true, false⟩,
-  ⟨67, "DTFSS_YbdHMSzp", DTFSS_YbdHMSzp, 0, 120, "dayIgnore", "tz", true, true, false⟩,
-  ⟨68, "DTFSS_YbdHMSZ", DTFSS_YbdHMSZ, 0, 120, "dayIgnore", "tz", true, true, false⟩,
-  ⟨69, "DTFSS_YbdHMS", DTFSS_YbdHMS, 0, 120, "dayIgnore", "year", true, false, false⟩,
-  ⟨70, "DTFSS_YmdHMSfz", DTFSS_YmdHMSfz, 0, 50, "year", "tz", true, true, true⟩,
-  ⟨71, "DTFSS_YmdHMSfzc", DTFSS_YmdHMSfzc, 0, 50, "year", "tz", true, true, true⟩,
-  ⟨72, "DTFSS_YmdHMSfzp", DTFSS_YmdHMSfzp, 0, 50, "year", "tz", true, true, true⟩,
-  ⟨73, "DTFSS_YmdHMSfZ", DTFSS_YmdHMSfZ, 0, 50, "year", "tz", true, true, true⟩,
-  ⟨74, "DTFSS_YmdHMSf", DTFSS_YmdHMSf, 0, 50, "year", "fractional", true, false, true⟩,
-  ⟨75, "DTFSS_YmdHMSz", DTFSS_YmdHMSz, 0, 50, "year", "tz", true, true, false⟩,
-  ⟨76, "DTFSS_YmdHMSzc", DTFSS_YmdHMSzc, 0, 50, "year", "tz", true, true, false⟩,
-  ⟨77, "DTFSS_YmdHMSzp", DTFSS_YmdHMSzp, 0, 50, "year", "tz", true, true, false⟩,
-  ⟨78, "DTFSS_YmdHMSZ", DTFSS_YmdHMSZ, 0, 50, "year", "tz", true, true, false⟩,
-  ⟨79, "DTFSS_YmdHMS", DTFSS_YmdHMS, 0, 50, "year", "second", true, false, false⟩,
-  ⟨80, "DTFSS_BdHMSYZ", DTFSS_BdHMSYZ, 0, 45, "dayIgnore", "year", true, true, false⟩,
-  ⟨81, "DTFSS_BdHMSYz", DTFSS_BdHMSYz, 0, 45, "dayIgnore", "year", true, true, false⟩,
-  ⟨82, "DTFSS_BdHMSYzc", DTFSS_BdHMSYzc, 0, 45, "dayIgnore", "year", true, true, false⟩,
-  ⟨83, "DTFSS_BdHMSYzp", DTFSS_BdHMSYzp, 0, 45, "dayIgnore", "year", true, true, false⟩,
-  ⟨84, "DTFSS_BdHMSYZ", DTFSS_BdHMSYZ, 0, 45, "dayIgnore", "tz", true, true, false⟩,
-  ⟨85, "DTFSS_BdHMSYz", DTFSS_BdHMSYz, 0, 45, "dayIgnore", "tz", true, true, false⟩,
-  ⟨86, "DTFSS_BdHMSYzc", DTFSS_BdHMSYzc, 0, 45, "dayIgnore", "tz", true, true, false⟩,
-  ⟨87, "DTFSS_BdHMSYzp", DTFSS_BdHMSYzp, 0, 45, "dayIgnore", "tz", true, true, false⟩,
-  ⟨88, "DTFSS_BdHMSY", DTFSS_BdHMSY, 0, 45, "dayIgnore", "year", true, false, false⟩,
-  ⟨89, "DTFSS_BdHMSY", DTFSS_BdHMSY, 0, 40, "dayIgnore", "year", true, false, false⟩,
-  ⟨90, "DTFSS_YbdHMSzc", DTFSS_YbdHMSzc, 0, 30, "year", "tz", true, true, false⟩,
-  ⟨91, "DTFSS_YbdHMSz", DTFSS_YbdHMSz, 0, 30, "year", "tz", true, true, false⟩,
-  ⟨92, "DTFSS_YbdHMSzp", DTFSS_YbdHMSzp, 0, 30, "year", "tz", true, true, false⟩,
-  ⟨93, "DTFSS_YbdHMSZ", DTFSS_YbdHMSZ, 0, 30, "year", "tz", true, true, false⟩,
-  ⟨94, "DTFSS_YbdHMS", DTFSS_YbdHMS, 0, 25, "year", "second", true, false, false⟩,
-  ⟨95, "DTFSS_YmdHM", DTFSS_YmdHM, 0, 20, "year", "minute", true, false, false⟩,
-  ⟨96, "DTFSS_sf", DTFSS_sf, 0, 100, "epoch", "fractional", false, false, true⟩,
-  ⟨97, "DTFSS_sf", DTFSS_sf, 0, 23, "epoch", "fractional", false, false, true⟩,
-  ⟨98, "DTFSS_sf", DTFSS_sf, 0, 26, "epoch", "fractional", false, false, true⟩,
-  ⟨99, "DTFSS_sf", DTFSS_sf, 0, 29, "epoch", "fractional", false, false, true⟩,
-  ⟨100, "DTFSS_s", DTFSS_s, 0, 19, "epoch", "epoch", false, false, false⟩,
-  ⟨101, "DTFSS_YmdHMSfz", DTFSS_YmdHMSfz, 0, 1024, "year", "tz", true, true, true⟩,
-  ⟨102, "DTFSS_YmdHMSfZ", DTFSS_YmdHMSfZ, 0, 2056, "year", "tz", true, true, true⟩,
-  ⟨103, "DTFSS_YmdHMSfzc", DTFSS_YmdHMSfzc, 0, 2056, "year", "tz", true, true, true⟩,
-  ⟨104, "DTFSS_YmdHMSfz", DTFSS_YmdHMSfz, 0, 2056, "year", "tz", true, true, true⟩,
-  ⟨105, "DTFSS_YmdHMSfzp", DTFSS_YmdHMSfzp, 0, 2056, "year", "tz", true, true, true⟩,
-  ⟨106, "DTFSS_YmdHMSf", DTFSS_YmdHMSf, 0, 2056, "year", "fractional", true, false, true⟩,
-  ⟨107, "DTFSS_YmdHMSZ", DTFSS_YmdHMSZ, 0, 2056, "year", "tz", true, true, false⟩,
-  ⟨108, "DTFSS_YmdHMSzc", DTFSS_YmdHMSzc, 0, 2056, "year", "tz", true, true, false⟩,
-  ⟨109, "DTFSS_YmdHMSz", DTFSS_YmdHMSz, 0, 2056, "year", "tz", true, true, false⟩,
-  ⟨110, "DTFSS_YmdHMSzp", DTFSS_YmdHMSzp, 0, 2056, "year", "tz", true, true, false⟩,
-  ⟨111, "DTFSS_YmdHMS", DTFSS_YmdHMS, 0, 2056, "year", "second", true, false, false⟩,
-  ⟨112, "DTFSS_YmdHMSfZ", DTFSS_YmdHMSfZ, 0, 2056, "year", "tz", true, true, true⟩,
-  ⟨113, "DTFSS_YmdHMSfzc", DTFSS_YmdHMSfzc, 0, 2056, "year", "tz", true, true, true⟩,
-  ⟨114, "DTFSS_YmdHMSfz", DTFSS_YmdHMSfz, 0, 2056, "year", "tz", true, true, true⟩,
-  ⟨115, "DTFSS_YmdHMSfzp", DTFSS_YmdHMSfzp, 0, 2056, "year", "tz", true, true, true⟩,
-  ⟨116, "DTFSS_YmdHMSf", DTFSS_YmdHMSf, 0, 2056, "year", "fractional", true, false, true⟩,
-  ⟨117, "DTFSS_YmdHMSZ", DTFSS_YmdHMSZ, 0, 2056, "year", "tz", true, true, false⟩,
-  ⟨118, "DTFSS_YmdHMSzc", DTFSS_YmdHMSzc, 0, 2056, "year", "tz", true, true, false⟩,
-  ⟨119, "DTFSS_YmdHMSz", DTFSS_YmdHMSz, 0, 2056, "year", "tz", true, true, false⟩,
-  ⟨120, "DTFSS_YmdHMSzp", DTFSS_YmdHMSzp, 0, 2056, "year", "tz", true, true, false⟩,
-  ⟨121, "DTFSS_YmdHMS", DTFSS_YmdHMS, 0, 2056, "year", "second", true, false, false⟩,
-  ⟨122, "DTFSS_mdHMS", DTFSS_mdHMS, 0, 512, "month", "second", false, false, false⟩,
-  ⟨123, "DTFSS_YmdHMSfz", DTFSS_YmdHMSfz, 0, 1024, "year", "tz", true, true, true⟩,
-  ⟨124, "DTFSS_YmdHMSfzc", DTFSS_YmdHMSfzc, 0, 1024, "year", "tz", true, true, true⟩,
-  ⟨125, "DTFSS_YmdHMSfzp", DTFSS_YmdHMSfzp, 0, 1024, "year", "tz", true, true, true⟩,
-  ⟨126, "DTFSS_YmdHMSfZ", DTFSS_YmdHMSfZ, 0, 1024, "year", "tz", true, true, true⟩,
-  ⟨127, "DTFSS_YmdHMSf", DTFSS_YmdHMSf, 0, 1024, "year", "fractional", true, false, true⟩,
-  ⟨128, "DTFSS_YmdHMSfz", DTFSS_YmdHMSfz, 0, 1024, "year", "tz", true, true, true⟩,
-  ⟨129, "DTFSS_YmdHMSfzc", DTFSS_YmdHMSfzc, 0, 1024, "year", "tz", true, true, true⟩,
-  ⟨130, "DTFSS_YmdHMSfzp", DTFSS_YmdHMSfzp, 0, 1024, "year", "tz", true, true, true⟩,
-  ⟨131, "DTFSS_YmdHMSfZ", DTFSS_YmdHMSfZ, 0, 1024, "year", "tz", true, true, true⟩,
-  ⟨132, "DTFSS_YmdHMSf", DTFSS_YmdHMSf, 0, 1024, "year", "fractional", true, false, true⟩,
-  ⟨133, "DTFSS_YmdHMSz", DTFSS_YmdHMSz, 0, 1024, "year", "tz", true, true, false⟩,
-  ⟨134, "DTFSS_YmdHMSzc", DTFSS_YmdHMSzc, 0, 1024, "year", "tz", true, true, false⟩,
-  ⟨135, "DTFSS_YmdHMSzp", DTFSS_YmdHMSzp, 0, 1024, "year", "tz", true, true, false⟩,
-  ⟨136, "DTFSS_YmdHMSZ", DTFSS_YmdHMSZ, 0, 1024, "year", "tz", true, true, false⟩,
-  ⟨137, "DTFSS_YmdHMS", DTFSS_YmdHMS, 0, 512, "year", "second", true, false, false⟩,
-  ⟨138, "DTFSS_YmsdkMS", DTFSS_YmsdkMS, 0, 512, "year", "second", true, false, false⟩,
-  ⟨139, "DTFSS_BdHMSYz", DTFSS_BdHMSYz, 0, 1024, "dayIgnore", "tz", true, true, false⟩,
-  ⟨140, "DTFSS_BdHMSYzc", DTFSS_BdHMSYzc, 0, 1024, "dayIgnore", "tz", true, true, false⟩,
-  ⟨141, "DTFSS_BdHMSYzp", DTFSS_BdHMSYzp, 0, 1024, "dayIgnore", "tz", true, true, false⟩,
-  ⟨142, "DTFSS_BdHMSYZ", DTFSS_BdHMSYZ, 0, 1024, "dayIgnore", "tz", true, true, false⟩,
-  ⟨143, "DTFSS_BdHMSY", DTFSS_BdHMSY, 0, 1024, "dayIgnore", "second", true, false, false⟩,
-  ⟨144, "DTFSS_BdHMSYz", DTFSS_BdHMSYz, 0, 1024, "dayIgnore", "tz", true, true, false⟩,
-  ⟨145, "DTFSS_BdHMSYzc", DTFSS_BdHMSYzc, 0, 1024, "dayIgnore", "tz", true, true, false⟩,
-  ⟨146, "DTFSS_BdHMSYzp", DTFSS_BdHMSYzp, 0, 1024, "dayIgnore", "tz", true, true, false⟩,
-  ⟨147, "DTFSS_BdHMSYZ", DTFSS_BdHMSYZ, 0, 1024, "dayIgnore", "tz", true, true, false⟩,
-  ⟨148, "DTFSS_BdHMSY", DTFSS_BdHMSY, 0, 1024, "dayIgnore", "year", true, false, false⟩,
-  ⟨149, "DTFSS_BdHMSYZ", DTFSS_BdHMSYZ, 0, 64, "month", "tz", true, true, false⟩,
-  ⟨150, "DTFSS_BdHMSYzc", DTFSS_BdHMSYzc, 0, 64, "month", "tz", true, true, false⟩,
-  ⟨151, "DTFSS_BdHMSYz", DTFSS_BdHMSYz, 0, 64, "month", "tz", true, true, false⟩,
-  ⟨152, "DTFSS_BdHMSYzp", DTFSS_BdHMSYzp, 0, 64, "month", "tz", true, true, false⟩,
-  ⟨153, "DTFSS_BdHMSY", DTFSS_BdHMSY, 0, 64, "month", "year", true, false, false⟩,
-  ⟨154, "DTFSS_BdHMS", DTFSS_BdHMS, 0, 64, "month", "second", false, false, false⟩,
-  ⟨155, "DTFSS_BdHMSYZ", DTFSS_BdHMSYZ, 0, 400, "dayIgnore", "tz", true, true, false⟩,
-  ⟨156, "DTFSS_BdHMSYzc", DTFSS_BdHMSYzc, 0, 400, "dayIgnore", "tz", true, true, false⟩,
-  ⟨157, "DTFSS_BdHMSYz", DTFSS_BdHMSYz, 0, 400, "dayIgnore", "tz", true, true, false⟩,
-  ⟨158, "DTFSS_BdHMSYzp", DTFSS_BdHMSYzp, 0, 400, "dayIgnore", "tz", true, true, false⟩,
-  ⟨159, "DTFSS_BdHMSYZ", DTFSS_BdHMSYZ, 0, 400, "dayIgnore", "year", true, true, false⟩,
-  ⟨160, "DTFSS_BdHMSYzc", DTFSS_BdHMSYzc, 0, 400, "dayIgnore", "year", true, true, false⟩,
-  ⟨161, "DTFSS_BdHMSYz", DTFSS_BdHMSYz, 0, 400, "dayIgnore", "year", true, true, false⟩,
-  ⟨162, "DTFSS_BdHMSYzp", DTFSS_BdHMSYzp, 0, 400, "dayIgnore", "year", true, true, false⟩,
-  ⟨163, "DTFSS_BdHMSYZ", DTFSS_BdHMSYZ, 0, 400, "month", "tz", true, true, false⟩,
-  ⟨164, "DTFSS_BdHMSYzc", DTFSS_BdHMSYzc, 0, 400, "month", "tz", true, true, false⟩,
-  ⟨165, "DTFSS_BdHMSYz", DTFSS_BdHMSYz, 0, 400, "month", "tz", true, true, false⟩,
-  ⟨166, "DTFSS_BdHMSYzp", DTFSS_BdHMSYzp, 0, 400, "month", "tz", true, true, false⟩,
-  ⟨167, "DTFSS_BdHMSYZ", DTFSS_BdHMSYZ, 0, 400, "month", "year", true, true, false⟩,
-  ⟨168, "DTFSS_BdHMSYzc", DTFSS_BdHMSYzc, 0, 400, "month", "year", true, true, false⟩,
-  ⟨169, "DTFSS_BdHMSYz", DTFSS_BdHMSYz, 0, 400, "month", "year", true, true, false⟩,
-  ⟨170, "DTFSS_BdHMSYzp", DTFSS_BdHMSYzp, 0, 400, "month", "year", true, true, false⟩,
-  ⟨171, "DTFSS_BdHMSY", DTFSS_BdHMSY, 0, 400, "month", "year", true, false, false⟩,
-  ⟨172, "DTFSS_BdHMS", DTFSS_BdHMS, 0, 400, "month", "second", false, false, false⟩
-]
-
-end S4V.Gen.TimeTables
+-- GENERATION FAILED: month_bB_to_month_m_bytes: trailing arms not the modelled `data_ => panic!`: 'b"may." | b"May." | b"MAY." => buffer.copy_from_slice(MONTH_05_m),\n        MONTH'
+#eval (show Nat from "translator failed: item left the subset")
